@@ -1,35 +1,34 @@
 /-
-  C03 — Finality: stable needs 2/3 DISTINCT deputies incl. the miner; stable only moves forward
-  along one chain; head always descends from stable; any arrival order.
+  C03 — Finality: stable needs 2/3 DISTINCT deputies of the block's term incl. the miner; stable only
+  moves forward along one chain; head always descends from stable; any arrival order.
 
-  Model: `LemoModel.Stable` (hand model of StableManager / DPoVP.InsertBlock / InsertConfirms /
-  ForkManager / ChainDatabase.SetStableBlock, tied to the real engine by `hx c03`: every op line is
-  run by the real engine and by the model and the canonical state lines are diffed).
+  Model: `LemoModel.Stable` — StableManager / DPoVP.InsertBlock / MineBlock / InsertConfirms / UpdateStable
+  (saveSnapshot, batchConfirmStable) / Confirmer (TryConfirm, needConfirm, lastSig, tryConfirmStable) /
+  ForkManager / ChainDatabase.SetStableBlock / deputynode.Manager terms / restart.  Tied to the real
+  engine by `hx c03`: every op line is run by the real engine (receiver = outsider or deputy, it
+  mines and restarts, chains cross a term boundary) and by the model; the canonical state lines
+  (result, stable, head, tree and committed blocks with the signatures stored, terms, lastSig) are diffed.
 
-  All structural theorems are invariants over ALL operation sequences (`run`, induction on the op
-  list) from the initial state, for every deputy count, every fork shape, every confirmation
-  multiset, and for ANY confirm verifier `V` (so they hold for the code as it is and for the repair).
+  The theorems are invariants over ALL operation sequences that did not end in a Go panic (`runP`,
+  induction on the op list) from the initial state: every deputy set and term schedule, every fork
+  shape, every confirmation multiset, every receiver identity, and — the structural ones — ANY pair
+  `Cfg` of "is this signature new?" tests (so they hold for the code as it is and as it was).
 
-  FULL statement of the quorum part — it now HOLDS and is `quorum_distinct_fixed`:
+  HEADLINE, the full quorum statement, for the live model `cfgSigner` (= /repo since commits d34eb0a
+  [VerifyNewConfirms] and 262c027 [TryConfirm / tryConfirmStable]): `quorum_distinct`.
+  History: before d34eb0a and before 262c027 the statement was false (signatures were compared as
+  BYTES, the quorum test counts signatures): kernel-checked witnesses `quorum_distinct_refuted*`
+  (outsider receiver, code before d34eb0a) and `quorum_own_confirm_twice_refuted` (deputy receiver,
+  code before 262c027).
 
-      ∀ dc n g ops op,  n ≤ dc →
-        let s  := run verifyNewConfirmsFixed (init dc n g) ops
-        let s' := (step verifyNewConfirmsFixed s op).1
-        s'.stable.id ≠ s.stable.id → twoThirds n ≤ distinctCount n s'.stable
-
-  `verifyNewConfirmsFixed` is the live model of `Validator.VerifyNewConfirms` since /repo commit
-  d34eb0a ("fix: count each deputy once when verifying block confirmations"); the harness ties it to
-  the real engine, and its oracle `c03/quorum-not-distinct/*` is silent.
-
-  History. On the code BEFORE commit d34eb0a (model `verifyNewConfirms`) the statement was false:
-  `VerifyNewConfirms` / `IsConfirmExist` compared signature BYTES while the quorum test counts
-  signatures. The kernel-checked witnesses `quorum_distinct_refuted*` are kept (they are what a revert
-  of the commit brings back: `VERIF_REPO=<reverted tree> ./check C03` reports
-  `c03/quorum-not-distinct/malleated-sig`), together with `quorum_distinct_partial`, the theorem the
-  old code satisfied under the exact guard.
+  What a Go panic on the stable-advance path does (`DPoVP.UpdateStable → saveSnapshot → NewTermRecord`,
+  C10's finding `c10/snapshot-deputies-not-loadable`): the panic comes AFTER `SetStableBlock` has
+  committed and BEFORE the head is re-picked — `head_not_descendant_after_snapshot_panic` is the
+  witness (harness: `c03/panic-after-stable-commit/head-not-descendant`); hence the `runP` guard.
 -/
 import LemoModel.Stable
 import LemoProofs.Lemmas.Stable
+import LemoProofs.Lemmas.StableTerms
 namespace LemoProofs.C03
 open LemoModel LemoModel.Stable LemoProofs.StableLemmas
 
@@ -38,36 +37,63 @@ open LemoModel LemoModel.Stable LemoProofs.StableLemmas
 /-- the head is the stable block or a block of the unconfirmed tree. -/
 def HeadOK (s : St) : Prop := s.headId = s.stable.id ∨ ∃ x ∈ s.tree, x.id = s.headId
 
+/-- store invariant: shape of the unconfirmed tree above the stable block; the committed blocks are
+    one parent-linked chain from the stable block down to genesis. -/
 structure TInv (s : St) : Prop where
   wf : WF s.stable.id s.stable.height s.tree
   top : ∃ c rest, s.committed = c :: rest ∧ c.id = s.stable.id ∧ c.height = s.stable.height
   linked : Linked s.committed
+  bottom : ∃ g, s.committed.getLast? = some g ∧ g.height = 0
+  tpos : 0 < s.termDur
+
+/-- the node knows exactly the terms whose snapshot block is stable. -/
+def TermsOK (s : St) : Prop := s.terms.length = s.stable.height / s.termDur + 1
 
 structure Inv (s : St) : Prop extends TInv s where
   head : HeadOK s
+  terms : TermsOK s
 
 /-- hashes of the committed (stable) blocks, newest first. -/
 def ids (s : St) : List Nat := s.committed.map (fun b => b.id)
+
+def Consts (s s' : St) : Prop :=
+  s'.dc = s.dc ∧ s'.termDur = s.termDur ∧ s'.interim = s.interim ∧ s'.self = s.self
 
 /-- `Ext s s'`: the stable side of `s'` extends the one of `s`: committed blocks are only ever
     prepended, and the stable pointer either stays or moves strictly up. -/
 def Ext (s s' : St) : Prop :=
   (∃ l, ids s' = l ++ ids s) ∧
-  ((s'.stable.id = s.stable.id ∧ s'.stable.height = s.stable.height) ∨ s.stable.height < s'.stable.height)
+  ((s'.stable.id = s.stable.id ∧ s'.stable.height = s.stable.height) ∨ s.stable.height < s'.stable.height) ∧
+  Consts s s'
 
-theorem Ext.refl (s : St) : Ext s s := ⟨⟨[], rfl⟩, Or.inl ⟨rfl, rfl⟩⟩
+theorem Consts.refl (s : St) : Consts s s := ⟨rfl, rfl, rfl, rfl⟩
+
+theorem Consts.trans {a b c : St} (h1 : Consts a b) (h2 : Consts b c) : Consts a c :=
+  ⟨h2.1.trans h1.1, h2.2.1.trans h1.2.1, h2.2.2.1.trans h1.2.2.1, h2.2.2.2.trans h1.2.2.2⟩
+
+theorem Ext.refl (s : St) : Ext s s := ⟨⟨[], rfl⟩, Or.inl ⟨rfl, rfl⟩, Consts.refl s⟩
 
 theorem Ext.trans {a b c : St} (h1 : Ext a b) (h2 : Ext b c) : Ext a c := by
-  obtain ⟨⟨l1, e1⟩, m1⟩ := h1
-  obtain ⟨⟨l2, e2⟩, m2⟩ := h2
-  refine ⟨⟨l2 ++ l1, by rw [e2, e1, List.append_assoc]⟩, ?_⟩
+  obtain ⟨⟨l1, e1⟩, m1, c1⟩ := h1
+  obtain ⟨⟨l2, e2⟩, m2, c2⟩ := h2
+  refine ⟨⟨l2 ++ l1, by rw [e2, e1, List.append_assoc]⟩, ?_, c1.trans c2⟩
   rcases m1 with ⟨i1, g1⟩ | g1 <;> rcases m2 with ⟨i2, g2⟩ | g2
   · exact Or.inl ⟨i2.trans i1, g2.trans g1⟩
   · right; omega
   · right; omega
   · right; omega
 
-/-! ## the store operations keep the tree invariant -/
+/-- an update that touches neither the store nor the constants. -/
+theorem Ext.of_same {s s' : St} (hc : s'.committed = s.committed) (hs : s'.stable = s.stable) (hk : Consts s s') :
+    Ext s s' :=
+  ⟨⟨[], by simp [ids, hc]⟩, Or.inl ⟨by rw [hs], by rw [hs]⟩, hk⟩
+
+theorem TInv.of_same {s s' : St} (h : TInv s) (ht : s'.tree = s.tree) (hc : s'.committed = s.committed)
+    (hs : s'.stable = s.stable) (hd : s'.termDur = s.termDur) : TInv s' :=
+  ⟨by rw [ht, hs]; exact h.wf, by rw [hc, hs]; exact h.top, by rw [hc]; exact h.linked,
+   by rw [hc]; exact h.bottom, by rw [hd]; exact h.tpos⟩
+
+/-! ## the store operations keep the store invariant -/
 
 theorem setBlock_spec {s s1 : St} {b : Blk} (h : TInv s) (e : setBlock s b = some s1) :
     s1 = { s with tree := b :: s.tree } ∧ TInv s1 := by
@@ -93,7 +119,7 @@ theorem setBlock_spec {s s1 : St} {b : Blk} (h : TInv s) (e : setBlock s b = som
     · cases e
     rename_i hh
     cases e
-    refine ⟨rfl, ⟨⟨h.wf, hroot, fun y hy => hnt y hy, Or.inl ⟨?_, ?_⟩⟩, h.top, h.linked⟩⟩
+    refine ⟨rfl, ⟨⟨h.wf, hroot, fun y hy => hnt y hy, Or.inl ⟨?_, ?_⟩⟩, h.top, h.linked, h.bottom, h.tpos⟩⟩
     · exact (Decidable.not_not.1 hpar).symm
     · exact (Decidable.not_not.1 hh).symm
   · rename_i p hp
@@ -102,7 +128,7 @@ theorem setBlock_spec {s s1 : St} {b : Blk} (h : TInv s) (e : setBlock s b = som
     rename_i hh
     cases e
     obtain ⟨hpm, hpid⟩ := findBlk_some hp
-    refine ⟨rfl, ⟨⟨h.wf, hroot, fun y hy => hnt y hy, Or.inr ⟨p, hpm, hpid, ?_⟩⟩, h.top, h.linked⟩⟩
+    refine ⟨rfl, ⟨⟨h.wf, hroot, fun y hy => hnt y hy, Or.inr ⟨p, hpm, hpid, ?_⟩⟩, h.top, h.linked, h.bottom, h.tpos⟩⟩
     exact (Decidable.not_not.1 hh).symm
 
 /-- the function `replaceBlk` maps over the list. -/
@@ -122,25 +148,44 @@ theorem replaceBlk_ids (l : List Blk) (nb : Blk) :
   intro x _
   exact (replaceBlk_shape nb x).1
 
+/-- rewriting the confirm list of a committed block keeps the committed chain. -/
+theorem committed_replace {s : St} (nb : Blk) (h : TInv s) :
+    TInv { s with committed := replaceBlk s.committed nb } := by
+  refine ⟨h.wf, ?_, ?_, ?_, h.tpos⟩
+  · obtain ⟨c, rest, hcm, hcid, hch⟩ := h.top
+    refine ⟨replFn nb c, rest.map (replFn nb), by show replaceBlk s.committed _ = _; rw [hcm, replaceBlk_eq]; rfl, ?_, ?_⟩
+    · rw [(replaceBlk_shape _ c).1]; exact hcid
+    · rw [(replaceBlk_shape _ c).2.2]; exact hch
+  · show Linked (replaceBlk s.committed _)
+    rw [replaceBlk_eq]
+    exact Linked.map _ (fun x _ => replaceBlk_shape _ x) h.linked
+  · obtain ⟨g, hg, hh⟩ := h.bottom
+    refine ⟨replFn nb g, ?_, by rw [(replaceBlk_shape nb g).2.2]; exact hh⟩
+    show (replaceBlk s.committed nb).getLast? = _
+    rw [replaceBlk_eq, List.getLast?_map, hg]; rfl
+
 theorem saveConfirm_spec {s : St} (b : Blk) (valid : List Sig) (h : TInv s) :
     TInv (saveConfirm s b valid).1 ∧ (saveConfirm s b valid).1.stable = s.stable ∧
     (saveConfirm s b valid).1.headId = s.headId ∧ (saveConfirm s b valid).1.headHeight = s.headHeight ∧
     ids (saveConfirm s b valid).1 = ids s ∧
-    (saveConfirm s b valid).1.tree.map (fun b => b.id) = s.tree.map (fun b => b.id) := by
+    (saveConfirm s b valid).1.tree.map (fun b => b.id) = s.tree.map (fun b => b.id) ∧
+    (saveConfirm s b valid).1.terms = s.terms ∧ Consts s (saveConfirm s b valid).1 := by
   unfold saveConfirm
   split
-  · refine ⟨⟨?_, h.top, h.linked⟩, rfl, rfl, rfl, rfl, replaceBlk_ids _ _⟩
+  · refine ⟨⟨?_, h.top, h.linked, h.bottom, h.tpos⟩, rfl, rfl, rfl, rfl, replaceBlk_ids _ _, rfl, Consts.refl s⟩
     show WF _ _ (replaceBlk s.tree _)
     rw [replaceBlk_eq]
     exact WF.map _ (fun x _ => replaceBlk_shape _ x) h.wf
-  · refine ⟨⟨h.wf, ?_, ?_⟩, rfl, rfl, rfl, replaceBlk_ids _ _, rfl⟩
-    · obtain ⟨c, rest, hcm, hcid, hch⟩ := h.top
-      refine ⟨replFn _ c, rest.map (replFn _), by show replaceBlk s.committed _ = _; rw [hcm, replaceBlk_eq]; rfl, ?_, ?_⟩
-      · rw [(replaceBlk_shape _ c).1]; exact hcid
-      · rw [(replaceBlk_shape _ c).2.2]; exact hch
-    · show Linked (replaceBlk s.committed _)
-      rw [replaceBlk_eq]
-      exact Linked.map _ (fun x _ => replaceBlk_shape _ x) h.linked
+  · exact ⟨committed_replace _ h, rfl, rfl, rfl, replaceBlk_ids _ _, rfl, rfl, Consts.refl s⟩
+
+theorem getLast?_append_cons {α : Type} : ∀ (p : List α) (c : α) (rest : List α),
+    (p ++ c :: rest).getLast? = (c :: rest).getLast?
+  | [], _, _ => rfl
+  | [x], c, rest => by simp [List.getLast?_cons_cons]
+  | x :: y :: p, c, rest => by
+    have := getLast?_append_cons (y :: p) c rest
+    simp only [List.cons_append] at this ⊢
+    rw [List.getLast?_cons_cons]; exact this
 
 theorem setStable_spec {s : St} {c : Blk} (h : TInv s) (hc : c ∈ s.tree) :
     TInv (setStable s c) ∧ Ext s (setStable s c) := by
@@ -148,7 +193,7 @@ theorem setStable_spec {s : St} {c : Blk} (h : TInv s) (hc : c ∈ s.tree) :
   obtain ⟨p, hp⟩ := pathUp_head h.wf c hc
   have htr := pathUp_toRoot h.wf c hc
   obtain ⟨c0, rest, hcm, hcid, hch⟩ := h.top
-  refine ⟨⟨?_, ?_, ?_⟩, ?_, ?_⟩
+  refine ⟨⟨?_, ?_, ?_, ?_, h.tpos⟩, ?_, ?_, Consts.refl s⟩
   · exact WF.descOf hne h.wf (fun y hy hyc => by rw [WF.unique h.wf y hy c hc hyc]; rfl)
   · exact ⟨c, p ++ s.committed, by show pathUp s.tree c.id ++ s.committed = _; rw [hp]; rfl, rfl, rfl⟩
   · show Linked (pathUp s.tree c.id ++ s.committed)
@@ -156,14 +201,19 @@ theorem setStable_spec {s : St} {c : Blk} (h : TInv s) (hc : c ∈ s.tree) :
     have hl := h.linked
     rw [hcm] at hl
     exact Linked.append_toRoot hl hcid hch htr
+  · obtain ⟨g, hg, hh⟩ := h.bottom
+    refine ⟨g, ?_, hh⟩
+    show (pathUp s.tree c.id ++ s.committed).getLast? = _
+    rw [hcm, getLast?_append_cons, ← hcm]; exact hg
   · exact ⟨(pathUp s.tree c.id).map (fun b => b.id), by simp [ids, setStable]⟩
   · right
     exact WF.height_gt h.wf c hc
 
-/-- `UpdateStable` either leaves the state alone or commits a block of the tree with the id asked for. -/
+/-- `StableManager.UpdateStable` either leaves the state alone or commits a block of the tree with the
+    id asked for. -/
 theorem updateStable_cases (s : St) (b : Blk) :
-    (updateStable s b).1 = s ∧ (updateStable s b).2.1 = false ∨
-    ∃ c ∈ s.tree, c.id = b.id ∧ isConfirmEnough s.dc s.n b = true ∧ s.stable.height < b.height ∧
+    ((updateStable s b).1 = s ∧ (updateStable s b).2.1 = false) ∨
+    ∃ c ∈ s.tree, c.id = b.id ∧ isConfirmEnough s.dc (depsAt s b.height) b = true ∧ s.stable.height < b.height ∧
       updateStable s b = (setStable s c, true, false) := by
   unfold updateStable
   split
@@ -178,11 +228,114 @@ theorem updateStable_cases (s : St) (b : Blk) :
     obtain ⟨hcm, hcid⟩ := findBlk_some hc
     exact Or.inr ⟨c, hcm, hcid, by simpa using hen, by omega, rfl⟩
 
-theorem updateStable_spec {s : St} (b : Blk) (h : TInv s) :
-    TInv (updateStable s b).1 ∧ Ext s (updateStable s b).1 := by
-  rcases updateStable_cases s b with ⟨e, _⟩ | ⟨c, hc, _, _, _, e⟩
-  · rw [e]; exact ⟨h, Ext.refl s⟩
-  · rw [e]; exact setStable_spec h hc
+/-! ## the node's own confirmations only touch confirm lists and `lastSig` -/
+
+theorem setLastSig_fields (s : St) (b : Blk) :
+    (setLastSig s b).tree = s.tree ∧ (setLastSig s b).stable = s.stable ∧ (setLastSig s b).committed = s.committed ∧
+    (setLastSig s b).terms = s.terms ∧ (setLastSig s b).headId = s.headId ∧ (setLastSig s b).headHeight = s.headHeight ∧
+    Consts s (setLastSig s b) := by
+  unfold setLastSig
+  split <;> exact ⟨rfl, rfl, rfl, rfl, rfl, rfl, Consts.refl s⟩
+
+/-- what `tryConfirmStable` / `batchConfirmStable` leave alone. -/
+def SameButConfirms (s s' : St) : Prop :=
+  s'.tree = s.tree ∧ s'.stable = s.stable ∧ s'.terms = s.terms ∧ s'.headId = s.headId ∧
+  s'.headHeight = s.headHeight ∧ Consts s s' ∧ ids s' = ids s
+
+theorem SameButConfirms.refl (s : St) : SameButConfirms s s := ⟨rfl, rfl, rfl, rfl, rfl, Consts.refl s, rfl⟩
+
+theorem SameButConfirms.trans {a b c : St} (h1 : SameButConfirms a b) (h2 : SameButConfirms b c) :
+    SameButConfirms a c :=
+  ⟨h2.1.trans h1.1, h2.2.1.trans h1.2.1, h2.2.2.1.trans h1.2.2.1, h2.2.2.2.1.trans h1.2.2.2.1,
+   h2.2.2.2.2.1.trans h1.2.2.2.2.1, h1.2.2.2.2.2.1.trans h2.2.2.2.2.2.1, h2.2.2.2.2.2.2.trans h1.2.2.2.2.2.2⟩
+
+theorem tryConfirmStable_spec (C : Cfg) {s : St} (b : Blk) (h : TInv s) :
+    TInv (tryConfirmStable C s b) ∧ SameButConfirms s (tryConfirmStable C s b) := by
+  obtain ⟨f1, f2, f3, f4, f5, f6, f7⟩ := setLastSig_fields s b
+  have h1 : TInv (setLastSig s b) := h.of_same f1 f3 f2 f7.2.1
+  have s1 : SameButConfirms s (setLastSig s b) := ⟨f1, f2, f4, f5, f6, f7, by simp [ids, f3]⟩
+  unfold tryConfirmStable
+  simp only
+  split
+  · exact ⟨h, SameButConfirms.refl s⟩
+  split
+  · exact ⟨h, SameButConfirms.refl s⟩
+  split
+  · exact ⟨h1, s1⟩
+  · refine ⟨committed_replace _ h1, s1.trans ⟨rfl, rfl, rfl, rfl, rfl, Consts.refl _, ?_⟩⟩
+    exact replaceBlk_ids _ _
+
+theorem batchConfirm_spec (C : Cfg) : ∀ (l : List Blk) {s : St}, TInv s →
+    TInv (batchConfirm C s l) ∧ SameButConfirms s (batchConfirm C s l)
+  | [], s, h => ⟨h, SameButConfirms.refl s⟩
+  | b :: older, s, h => by
+    obtain ⟨h1, s1⟩ := batchConfirm_spec C older h
+    simp only [batchConfirm]
+    split
+    · rename_i cb _
+      obtain ⟨h2, s2⟩ := tryConfirmStable_spec C cb h1
+      exact ⟨h2, s1.trans s2⟩
+    · exact ⟨h1, s1⟩
+
+/-! ## `DPoVP.UpdateStable`: commit, term snapshots, own confirmations -/
+
+/-- the four outcomes. In the last two the stable pointer moved to a block `c` of the tree with the id
+    asked for; a panic leaves exactly the committed state (nothing after `SetStableBlock` ran). -/
+theorem updateStableFull_cases (C : Cfg) (s : St) (b : Blk) (hi : TInv s) (ht : TermsOK s) :
+    ((updateStableFull C s b).1 = s ∧ ((updateStableFull C s b).2 = .same ∨ (updateStableFull C s b).2 = .err)) ∨
+    ∃ c ∈ s.tree, c.id = b.id ∧ isConfirmEnough s.dc (depsAt s b.height) b = true ∧ s.stable.height < b.height ∧
+      (((updateStableFull C s b).2 = .panic ∧ (updateStableFull C s b).1 = setStable s c) ∨
+       ((updateStableFull C s b).2 = .changed ∧ TInv (updateStableFull C s b).1 ∧ TermsOK (updateStableFull C s b).1 ∧
+          ∃ t, (∃ ext, t = s.terms ++ ext) ∧
+            SameButConfirms { setStable s c with terms := t } (updateStableFull C s b).1)) := by
+  unfold updateStableFull
+  rcases updateStable_cases s b with ⟨e, e2⟩ | ⟨c, hc, hcid, hen, hgt, e⟩
+  · left
+    simp only
+    split
+    · refine ⟨e, ?_⟩; simp
+    · rw [e2]; simp only [Bool.not_false, if_true]
+      refine ⟨e, ?_⟩; simp
+  · right
+    refine ⟨c, hc, hcid, hen, hgt, ?_⟩
+    rw [e]
+    simp only [Bool.false_eq_true, if_false, Bool.not_true]
+    obtain ⟨t1, _⟩ := setStable_spec hi hc
+    have hpath : ToRoot s.stable.id s.stable.height (pathUp s.tree b.id) := by
+      rw [← hcid]; exact pathUp_toRoot hi.wf c hc
+    have hterms : (setStable s c).terms = s.terms := rfl
+    split
+    · exact Or.inl ⟨rfl, rfl⟩
+    · rename_i t hst
+      right
+      rw [hterms] at hst
+      obtain ⟨hext, x, rest, hp, hlen⟩ := saveSnapshots_path hi.tpos ht hpath hst
+      have hx : x = c := by
+        obtain ⟨p', hp'⟩ := pathUp_head hi.wf c hc
+        rw [hcid] at hp'
+        rw [hp'] at hp
+        cases hp; rfl
+      have t2 : TInv { setStable s c with terms := t } := t1.of_same rfl rfl rfl rfl
+      obtain ⟨t3, s3⟩ := batchConfirm_spec C (pathUp s.tree b.id) t2
+      refine ⟨rfl, t3, ?_, t, hext, s3⟩
+      show (batchConfirm C _ _).terms.length = (batchConfirm C _ _).stable.height / (batchConfirm C _ _).termDur + 1
+      rw [s3.2.2.1, s3.2.1, s3.2.2.2.2.2.1.2.1]
+      show t.length = c.height / s.termDur + 1
+      rw [← hx]; exact hlen
+
+theorem updateStableFull_spec (C : Cfg) {s : St} (b : Blk) (hi : TInv s) (ht : TermsOK s) :
+    TInv (updateStableFull C s b).1 ∧ Ext s (updateStableFull C s b).1 ∧
+    ((updateStableFull C s b).2 ≠ .panic → TermsOK (updateStableFull C s b).1) := by
+  rcases updateStableFull_cases C s b hi ht with ⟨e, _⟩ | ⟨c, hc, _, _, _, ⟨ep, e⟩ | ⟨_, t3, tk, t, _, s3⟩⟩
+  · rw [e]; exact ⟨hi, Ext.refl s, fun _ => ht⟩
+  · rw [e]
+    obtain ⟨t1, x1⟩ := setStable_spec hi hc
+    exact ⟨t1, x1, fun h => absurd ep h⟩
+  · obtain ⟨_, x1⟩ := setStable_spec hi hc
+    refine ⟨t3, ?_, fun _ => tk⟩
+    obtain ⟨⟨l, el⟩, m, k⟩ := x1
+    refine ⟨⟨l, by rw [s3.2.2.2.2.2.2]; exact el⟩, ?_, k.trans s3.2.2.2.2.2.1⟩
+    rw [s3.2.1]; exact m
 
 /-! ## fork choice re-establishes `HeadOK` whatever the head was -/
 
@@ -212,28 +365,33 @@ theorem headOK_setHead_choose (s : St) : HeadOK (setHead s (some (chooseNewFork 
 
 theorem setHead_fields (s : St) (h : Option Blk) :
     (setHead s h).tree = s.tree ∧ (setHead s h).stable = s.stable ∧ (setHead s h).committed = s.committed ∧
-    (setHead s h).n = s.n ∧ (setHead s h).dc = s.dc := by
+    (setHead s h).terms = s.terms ∧ Consts s (setHead s h) := by
   unfold setHead
   split
-  · split <;> exact ⟨rfl, rfl, rfl, rfl, rfl⟩
-  · exact ⟨rfl, rfl, rfl, rfl, rfl⟩
+  · split <;> exact ⟨rfl, rfl, rfl, rfl, Consts.refl s⟩
+  · exact ⟨rfl, rfl, rfl, rfl, Consts.refl s⟩
 
 theorem setHead_tinv {s : St} (h : Option Blk) (hi : TInv s) : TInv (setHead s h) := by
-  obtain ⟨e1, e2, e3, _, _⟩ := setHead_fields s h
-  exact ⟨by rw [e1, e2]; exact hi.wf, by rw [e2, e3]; exact hi.top, by rw [e3]; exact hi.linked⟩
+  obtain ⟨e1, e2, e3, _, k⟩ := setHead_fields s h
+  exact hi.of_same e1 e3 e2 k.2.1
+
+theorem setHead_terms {s : St} (h : Option Blk) (ht : TermsOK s) : TermsOK (setHead s h) := by
+  obtain ⟨_, e2, _, e4, k⟩ := setHead_fields s h
+  unfold TermsOK
+  rw [e4, e2, k.2.1]; exact ht
 
 theorem setHead_ext (s : St) (h : Option Blk) : Ext s (setHead s h) := by
-  obtain ⟨_, e2, e3, _, _⟩ := setHead_fields s h
-  exact ⟨⟨[], by simp [ids, e3]⟩, Or.inl ⟨by rw [e2], by rw [e2]⟩⟩
+  obtain ⟨_, e2, e3, _, k⟩ := setHead_fields s h
+  exact Ext.of_same e3 e2 k
 
-theorem updateForkForConfirm_spec {s : St} (hi : TInv s) :
+theorem updateForkForConfirm_spec {s : St} (hi : TInv s) (ht : TermsOK s) :
     Inv (updateForkForConfirm s) ∧ Ext s (updateForkForConfirm s) := by
   unfold updateForkForConfirm
   cases hc : isCut s
   · simp only [Bool.false_eq_true, if_false]
-    exact ⟨⟨hi, headOK_of_not_cut hc⟩, Ext.refl s⟩
+    exact ⟨⟨hi, headOK_of_not_cut hc, ht⟩, Ext.refl s⟩
   · simp only [if_true]
-    exact ⟨⟨setHead_tinv _ hi, headOK_setHead_choose s⟩, setHead_ext _ _⟩
+    exact ⟨⟨setHead_tinv _ hi, headOK_setHead_choose s, setHead_terms _ ht⟩, setHead_ext _ _⟩
 
 /-- `UpdateFork`: given that the new block is the stable block or in the tree, the head chosen is too. -/
 theorem forkDecision_spec {s : St} {nb : Blk} (hnb : nb.id = s.stable.id ∨ ∃ x ∈ s.tree, x.id = nb.id) :
@@ -263,195 +421,315 @@ theorem forkDecision_spec {s : St} {nb : Blk} (hnb : nb.id = s.stable.id ∨ ∃
     cases e
     exact headOK_setHead_choose s
 
-/-! ## every engine operation keeps `Inv` and extends the stable side -/
+/-! ## every engine operation keeps the store invariant and extends the stable side; unless it ends in a
+    Go panic it keeps the whole invariant -/
 
-theorem saveNewBlock_spec {s : St} (b : Blk) (hi : Inv s) :
-    Inv (saveNewBlock s b).1 ∧ Ext s (saveNewBlock s b).1 := by
+/-- the post-condition of every operation. -/
+def Post (s : St) (r : St × String) : Prop :=
+  TInv r.1 ∧ Ext s r.1 ∧ (r.2 ≠ "panic" → Inv r.1)
+
+theorem Post.keep {s : St} (hi : Inv s) (msg : String) : Post s (s, msg) := ⟨hi.toTInv, Ext.refl s, fun _ => hi⟩
+
+theorem saveNewBlock_spec (C : Cfg) {s : St} (b : Blk) (hi : Inv s) : Post s (saveNewBlock C s b) := by
   unfold saveNewBlock
   split
-  · exact ⟨hi, Ext.refl s⟩
+  · exact Post.keep hi _
   · rename_i s1 hs1
     obtain ⟨e1, t1⟩ := setBlock_spec hi.toTInv hs1
-    have hx1 : Ext s s1 := by rw [e1]; exact ⟨⟨[], rfl⟩, Or.inl ⟨rfl, rfl⟩⟩
-    have hh1 : HeadOK s1 := by
-      rw [e1]
-      rcases hi.head with h | ⟨x, hx, hxid⟩
-      · exact Or.inl h
-      · exact Or.inr ⟨x, List.mem_cons_of_mem _ hx, hxid⟩
-    have hb1 : b ∈ s1.tree := by rw [e1]; exact List.mem_cons_self
-    obtain ⟨t2, x2⟩ := updateStable_spec b t1
-    -- where is the new block after UpdateStable?
-    have hnb : b.id = (updateStable s1 b).1.stable.id ∨ ∃ x ∈ (updateStable s1 b).1.tree, x.id = b.id := by
-      rcases updateStable_cases s1 b with ⟨e, _⟩ | ⟨c, _, hcid, _, _, e⟩
-      · rw [e]; exact Or.inr ⟨b, hb1, rfl⟩
-      · rw [e]; exact Or.inl hcid.symm
-    split
-    · -- SetStableBlock failed: state is s1
-      rename_i s2 ch hus
-      have e2 : (updateStable s1 b).1 = s2 := by rw [hus]
-      rcases updateStable_cases s1 b with ⟨e, _⟩ | ⟨c, _, _, _, _, e⟩
-      · rw [← e2, e]; exact ⟨⟨t1, hh1⟩, hx1⟩
-      · rw [e] at hus; cases hus
-    · rename_i s2 ch hus
-      have e2 : (updateStable s1 b).1 = s2 := by rw [hus]
-      rw [e2] at t2 x2 hnb
-      obtain ⟨fp, fs⟩ := forkDecision_spec hnb
+    -- IsMinedByself → SetLastSig
+    have key : ∀ s1' : St, s1'.tree = s1.tree → s1'.stable = s1.stable → s1'.committed = s1.committed →
+        s1'.terms = s1.terms → s1'.headId = s1.headId → Consts s1 s1' →
+        Post s (let r := updateStableFull C s1' b
+                if r.2 = .err then (r.1, "ErrSaveBlock")
+                else if r.2 = .panic then (r.1, "panic")
+                else match forkDecision r.1 b with
+                  | none => (r.1, "panic")
+                  | some h => (setHead r.1 h, "ok")) := by
+      intro s1' g1 g2 g3 g4 g5 g6
+      have t1' : TInv s1' := t1.of_same g1 g3 g2 g6.2.1
+      have tk1 : TermsOK s1' := by
+        unfold TermsOK; rw [g4, g2, g6.2.1, e1]; exact hi.terms
+      have hx1 : Ext s s1' := Ext.of_same (by rw [g3, e1]) (by rw [g2, e1]) (by rw [e1] at g6; exact g6)
+      have hh1 : HeadOK s1' := by
+        unfold HeadOK
+        rw [g5, g2, g1, e1]
+        rcases hi.head with h | ⟨x, hx, hxid⟩
+        · exact Or.inl h
+        · exact Or.inr ⟨x, List.mem_cons_of_mem _ hx, hxid⟩
+      have hb1 : b ∈ s1'.tree := by rw [g1, e1]; exact List.mem_cons_self
+      obtain ⟨t2, x2, k2⟩ := updateStableFull_spec C b t1' tk1
+      simp only
       split
-      · rename_i hfd
-        exact ⟨⟨t2, fp hfd⟩, hx1.trans x2⟩
-      · rename_i h hfd
-        exact ⟨⟨setHead_tinv _ t2, fs h hfd⟩, (hx1.trans x2).trans (setHead_ext _ _)⟩
+      · -- SetStableBlock failed: nothing happened
+        rename_i herr
+        rcases updateStableFull_cases C s1' b t1' tk1 with ⟨e, _⟩ | ⟨c, _, _, _, _, ⟨ep, _⟩ | ⟨ec, _⟩⟩
+        · rw [e]; exact ⟨t1', hx1, fun _ => ⟨t1', hh1, tk1⟩⟩
+        · rw [ep] at herr; cases herr
+        · rw [ec] at herr; cases herr
+      · split
+        · exact ⟨t2, hx1.trans x2, fun h => absurd rfl h⟩
+        · rename_i hne herr
+          have tk2 := k2 herr
+          -- where is the new block after UpdateStable?
+          have hnb : b.id = (updateStableFull C s1' b).1.stable.id ∨
+              ∃ x ∈ (updateStableFull C s1' b).1.tree, x.id = b.id := by
+            rcases updateStableFull_cases C s1' b t1' tk1 with ⟨e, _⟩ | ⟨c, _, hcid, _, _, ⟨ep, _⟩ | ⟨_, _, _, t, _, s3⟩⟩
+            · rw [e]; exact Or.inr ⟨b, hb1, rfl⟩
+            · exact absurd ep herr
+            · left; rw [s3.2.1]; exact hcid.symm
+          obtain ⟨fp, fs⟩ := forkDecision_spec hnb
+          split
+          · exact ⟨t2, hx1.trans x2, fun h => absurd rfl h⟩
+          · rename_i h hfd
+            exact ⟨setHead_tinv _ t2, (hx1.trans x2).trans (setHead_ext _ _),
+              fun _ => ⟨setHead_tinv _ t2, fs h hfd, setHead_terms _ tk2⟩⟩
+    simp only
+    split
+    · obtain ⟨f1, f2, f3, f4, f5, _, f7⟩ := setLastSig_fields s1 b
+      exact key _ f1 f2 f3 f4 f5 f7
+    · exact key _ rfl rfl rfl rfl rfl (Consts.refl s1)
 
-theorem insertBlock_spec (V : Verifier) {s : St} (b : Blk) (valid : Bool) (hi : Inv s) :
-    Inv (insertBlock V s b valid).1 ∧ Ext s (insertBlock V s b valid).1 := by
+theorem tryConfirm_spec (C : Cfg) {s : St} (b : Blk) (hi : Inv s) :
+    Inv (tryConfirm C s b).1 ∧ Ext s (tryConfirm C s b).1 ∧
+    (tryConfirm C s b).1.tree = s.tree ∧ (tryConfirm C s b).1.terms = s.terms ∧ Consts s (tryConfirm C s b).1 ∧
+    (tryConfirm C s b).1.stable = s.stable := by
+  obtain ⟨f1, f2, f3, f4, f5, _, f7⟩ := setLastSig_fields s b
+  have h1 : Inv (setLastSig s b) := by
+    refine ⟨hi.toTInv.of_same f1 f3 f2 f7.2.1, ?_, ?_⟩
+    · unfold HeadOK; rw [f5, f2, f1]; exact hi.head
+    · unfold TermsOK; rw [f4, f2, f7.2.1]; exact hi.terms
+  have x1 : Ext s (setLastSig s b) := Ext.of_same f3 f2 f7
+  unfold tryConfirm
+  split
+  · simp only
+    split
+    · exact ⟨h1, x1, f1, f4, f7, f2⟩
+    · exact ⟨h1, x1, f1, f4, f7, f2⟩
+  · exact ⟨hi, Ext.refl s, rfl, rfl, Consts.refl s, rfl⟩
+
+theorem Post.trans {s s1 : St} {r : St × String} (hx : Ext s s1) (hp : Post s1 r) : Post s r :=
+  ⟨hp.1, hx.trans hp.2.1, hp.2.2⟩
+
+theorem insertBlock_spec (C : Cfg) {s : St} (b : Blk) (valid : Bool) (hi : Inv s) :
+    Post s (insertBlock C s b valid) := by
   unfold insertBlock
   split
-  · exact ⟨hi, Ext.refl s⟩
+  · exact Post.keep hi _
   split
-  · exact ⟨hi, Ext.refl s⟩
+  · exact Post.keep hi _
   split
-  · exact ⟨hi, Ext.refl s⟩
+  · exact Post.keep hi _
   split
-  · exact ⟨hi, Ext.refl s⟩
+  · exact Post.keep hi _
   split
-  · exact ⟨hi, Ext.refl s⟩
+  · exact Post.keep hi _
   split
-  · exact ⟨hi, Ext.refl s⟩
-  exact saveNewBlock_spec _ hi
+  · exact Post.keep hi _
+  simp only
+  obtain ⟨i1, x1, _⟩ := tryConfirm_spec C
+    { b with confirms := (C.V (depsAt s b.height) { b with confirms := [] } b.confirms).1 } hi
+  exact Post.trans x1 (saveNewBlock_spec C _ i1)
 
-theorem afterConfirm_spec {s1 : St} (nb : Blk) (height : Nat) (hi : Inv s1) :
-    Inv (afterConfirm s1 nb height).1 ∧ Ext s1 (afterConfirm s1 nb height).1 := by
+theorem mineBlock_spec (C : Cfg) {s : St} (b : Blk) (hi : Inv s) : Post s (mineBlock C s b) := by
+  unfold mineBlock
+  split
+  · exact Post.keep hi _
+  · exact saveNewBlock_spec C _ hi
+
+theorem afterConfirm_spec (C : Cfg) {s1 : St} (nb : Blk) (height : Nat) (hi : Inv s1) :
+    Post s1 (afterConfirm C s1 nb height) := by
   unfold afterConfirm
   split
-  · obtain ⟨t2, x2⟩ := updateStable_spec nb hi.toTInv
+  · obtain ⟨t2, x2, k2⟩ := updateStableFull_spec C nb hi.toTInv hi.terms
+    simp only
     split
-    · rename_i s2 ch hus
-      have e2 : (updateStable s1 nb).1 = s2 := by rw [hus]
-      rcases updateStable_cases s1 nb with ⟨e, _⟩ | ⟨c, _, _, _, _, e⟩
-      · rw [← e2, e]; exact ⟨hi, Ext.refl s1⟩
-      · rw [e] at hus; cases hus
-    · rename_i s2 ch hus
-      have e2 : (updateStable s1 nb).1 = s2 := by rw [hus]
-      rw [e2] at t2 x2
-      obtain ⟨i3, x3⟩ := updateForkForConfirm_spec t2
-      exact ⟨i3, x2.trans x3⟩
-  · exact ⟨hi, Ext.refl s1⟩
+    · rename_i herr
+      rcases updateStableFull_cases C s1 nb hi.toTInv hi.terms with ⟨e, _⟩ | ⟨c, _, _, _, _, ⟨ep, _⟩ | ⟨ec, _⟩⟩
+      · rw [e]; exact Post.keep hi _
+      · rw [ep] at herr; cases herr
+      · rw [ec] at herr; cases herr
+    · split
+      · exact ⟨t2, x2, fun h => absurd rfl h⟩
+      · rename_i _ herr
+        obtain ⟨i3, x3⟩ := updateForkForConfirm_spec t2 (k2 herr)
+        exact ⟨i3.toTInv, x2.trans x3, fun _ => i3⟩
+  · exact Post.keep hi _
 
 theorem saveConfirm_inv {s : St} (b : Blk) (valid : List Sig) (hi : Inv s) :
     Inv (saveConfirm s b valid).1 ∧ Ext s (saveConfirm s b valid).1 := by
-  obtain ⟨t, est, ehd, _, eids, etree⟩ := saveConfirm_spec b valid hi.toTInv
-  refine ⟨⟨t, ?_⟩, ⟨[], by rw [eids]; rfl⟩, Or.inl ⟨by rw [est], by rw [est]⟩⟩
-  unfold HeadOK
-  rw [est, ehd]
-  rcases hi.head with h | ⟨x, hx, hxid⟩
-  · exact Or.inl h
-  · right
-    have : s.headId ∈ s.tree.map (fun b => b.id) := List.mem_map.2 ⟨x, hx, hxid⟩
-    rw [← etree] at this
-    rcases List.mem_map.1 this with ⟨y, hy, hyid⟩
-    exact ⟨y, hy, hyid⟩
+  obtain ⟨t, est, ehd, _, eids, etree, eterms, k⟩ := saveConfirm_spec b valid hi.toTInv
+  refine ⟨⟨t, ?_, ?_⟩, ⟨[], by rw [eids]; rfl⟩, Or.inl ⟨by rw [est], by rw [est]⟩, k⟩
+  · unfold HeadOK
+    rw [est, ehd]
+    rcases hi.head with h | ⟨x, hx, hxid⟩
+    · exact Or.inl h
+    · right
+      have : s.headId ∈ s.tree.map (fun b => b.id) := List.mem_map.2 ⟨x, hx, hxid⟩
+      rw [← etree] at this
+      rcases List.mem_map.1 this with ⟨y, hy, hyid⟩
+      exact ⟨y, hy, hyid⟩
+  · unfold TermsOK
+    rw [eterms, est, k.2.1]; exact hi.terms
 
-theorem insertConfirms_spec (V : Verifier) {s : St} (id height : Nat) (sigs : List Sig) (hi : Inv s) :
-    Inv (insertConfirms V s id height sigs).1 ∧ Ext s (insertConfirms V s id height sigs).1 := by
+theorem insertConfirms_spec (C : Cfg) {s : St} (id height : Nat) (sigs : List Sig) (hi : Inv s) :
+    Post s (insertConfirms C s id height sigs) := by
   unfold insertConfirms
   split
-  · exact ⟨hi, Ext.refl s⟩
+  · exact Post.keep hi _
   split
-  · exact ⟨hi, Ext.refl s⟩
+  · exact Post.keep hi _
   split
-  · exact ⟨hi, Ext.refl s⟩
+  · exact Post.keep hi _
   split
-  · exact ⟨hi, Ext.refl s⟩
+  · exact Post.keep hi _
   simp only
   split
-  · exact ⟨hi, Ext.refl s⟩
+  · exact Post.keep hi _
   rename_i b _ _ _ _
-  obtain ⟨i1, x1⟩ := saveConfirm_inv b (V s.n b sigs).1 hi
-  obtain ⟨i2, x2⟩ := afterConfirm_spec (saveConfirm s b (V s.n b sigs).1).2 height i1
-  exact ⟨i2, x1.trans x2⟩
+  obtain ⟨i1, x1⟩ := saveConfirm_inv b (C.V (depsAt s b.height) b sigs).1 hi
+  exact Post.trans x1 (afterConfirm_spec C _ height i1)
 
-theorem step_spec (V : Verifier) {s : St} (op : Op) (hi : Inv s) :
-    Inv (step V s op).1 ∧ Ext s (step V s op).1 := by
+theorem reopen_spec {s : St} (hi : Inv s) : Post s (reopen s) := by
+  unfold reopen
+  split
+  · exact Post.keep hi _
+  · rename_i t ht
+    obtain ⟨c, rest, hcm, hcid, hch⟩ := hi.top
+    have hlen : t.length = c.height / s.termDur + 1 := by
+      obtain ⟨x, r, hx, hl⟩ := saveSnapshots_chain hi.tpos hi.linked hi.bottom ht
+      rw [hcm] at hx; cases hx; exact hl
+    split
+    · rename_i hnil; rw [hcm] at hnil; cases hnil
+    · rename_i top rest' htop
+      have htc : top = c := by rw [hcm] at htop; cases htop; rfl
+      subst htc
+      have ti : TInv { s with terms := t, tree := [], stable := top, headId := top.id, headHeight := top.height,
+                              lastSigH := top.height, lastSigId := top.id } :=
+        ⟨trivial, ⟨top, rest, hcm, rfl, rfl⟩, hi.linked, hi.bottom, hi.tpos⟩
+      exact ⟨ti, ⟨⟨[], rfl⟩, Or.inl ⟨hcid, hch⟩, Consts.refl s⟩, fun _ => ⟨ti, Or.inl rfl, hlen⟩⟩
+
+theorem step_spec (C : Cfg) {s : St} (op : Op) (hi : Inv s) : Post s (step C s op) := by
   cases op with
-  | block b valid => exact insertBlock_spec V b valid hi
-  | confirms id h sigs => exact insertConfirms_spec V id h sigs hi
+  | block b valid => exact insertBlock_spec C b valid hi
+  | mine b => exact mineBlock_spec C b hi
+  | confirms id h sigs => exact insertConfirms_spec C id h sigs hi
+  | reopen => exact reopen_spec hi
 
-theorem inv_init (dc n g : Nat) : Inv (init dc n g) :=
-  ⟨⟨trivial, ⟨genesis g, [], rfl, rfl, rfl⟩, trivial⟩, Or.inl rfl⟩
+theorem inv_init (dc T I self g : Nat) (term0 : List Nat) (hT : 0 < T) : Inv (init dc T I self g term0) :=
+  ⟨⟨trivial, ⟨genesis g term0, [], rfl, rfl, rfl⟩, trivial, ⟨genesis g term0, rfl, rfl⟩, hT⟩, Or.inl rfl,
+   by show 1 = 0 / T + 1; rw [Nat.zero_div]⟩
 
-theorem run_spec (V : Verifier) : ∀ (ops : List Op) {s : St}, Inv s → Inv (run V s ops) ∧ Ext s (run V s ops)
-  | [], s, hi => ⟨hi, Ext.refl s⟩
-  | op :: ops, s, hi => by
-    obtain ⟨i1, x1⟩ := step_spec V op hi
-    obtain ⟨i2, x2⟩ := run_spec V ops i1
-    exact ⟨i2, x1.trans x2⟩
+theorem runP_spec (C : Cfg) : ∀ (ops : List Op) {s s' : St}, Inv s → runP C s ops = some s' → Inv s' ∧ Ext s s'
+  | [], s, s', hi, e => by cases e; exact ⟨hi, Ext.refl s⟩
+  | op :: ops, s, s', hi, e => by
+    rw [runP] at e
+    split at e
+    · cases e
+    · rename_i hp
+      obtain ⟨_, x1, i1⟩ := step_spec C op hi
+      obtain ⟨i2, x2⟩ := runP_spec C ops (i1 hp) e
+      exact ⟨i2, x1.trans x2⟩
+
+
+/-! ## reachable states -/
+
+/-- `s` is reached from the initial state of a node (`dc` seats, term length `T > 0`, interim `I`,
+    identity `self`, genesis deputies `term0`) by a run in which no operation ended in a Go panic. -/
+def Reach (C : Cfg) (s : St) : Prop :=
+  ∃ (dc T I self g : Nat) (term0 : List Nat) (ops : List Op), 0 < T ∧ runP C (init dc T I self g term0) ops = some s
 
 /-- every state the engine can reach satisfies the invariant. -/
-theorem inv_reachable (V : Verifier) (dc n g : Nat) (ops : List Op) : Inv (run V (init dc n g) ops) :=
-  (run_spec V ops (inv_init dc n g)).1
+theorem inv_reachable {C : Cfg} {s : St} (h : Reach C s) : Inv s := by
+  obtain ⟨dc, T, I, self, g, term0, ops, hT, e⟩ := h
+  exact (runP_spec C ops (inv_init dc T I self g term0 hT) e).1
+
+theorem Reach.next {C : Cfg} {s : St} (h : Reach C s) (op : Op) (hp : (step C s op).2 ≠ "panic") :
+    Reach C (step C s op).1 := by
+  obtain ⟨dc, T, I, self, g, term0, ops, hT, e⟩ := h
+  refine ⟨dc, T, I, self, g, term0, ops ++ [op], hT, ?_⟩
+  have key : ∀ (ops : List Op) (s0 : St), runP C s0 ops = some s → runP C s0 (ops ++ [op]) = some (step C s op).1 := by
+    intro ops
+    induction ops with
+    | nil => intro s0 e0; cases e0; simp [runP, hp]
+    | cons o os ih =>
+      intro s0 e0
+      rw [runP] at e0
+      split at e0
+      · cases e0
+      · rename_i hq
+        show runP C s0 (o :: (os ++ [op])) = _
+        rw [runP, if_neg hq]; exact ih _ e0
+  exact key ops _ e
 
 /-! ## the structural theorems -/
 
-/-- The stable height never decreases — one operation, any reachable state. -/
-theorem stable_monotone (V : Verifier) (dc n g : Nat) (ops : List Op) (op : Op) :
-    (run V (init dc n g) ops).stable.height ≤ (step V (run V (init dc n g) ops) op).1.stable.height := by
-  rcases (step_spec V op (inv_reachable V dc n g ops)).2.2 with ⟨_, h⟩ | h <;> omega
+/-- The stable height never decreases — one operation (even one that panics), any reachable state. -/
+theorem stable_monotone {C : Cfg} {s : St} (h : Reach C s) (op : Op) :
+    s.stable.height ≤ (step C s op).1.stable.height := by
+  rcases (step_spec C op (inv_reachable h)).2.1.2.1 with ⟨_, e⟩ | e <;> omega
 
-/-- … and over any further sequence of operations. -/
-theorem stable_monotone_run (V : Verifier) (dc n g : Nat) (ops more : List Op) :
-    (run V (init dc n g) ops).stable.height ≤ (run V (run V (init dc n g) ops) more).stable.height := by
-  rcases (run_spec V more (inv_reachable V dc n g ops)).2.2 with ⟨_, h⟩ | h <;> omega
+/-- … and over any further panic-free sequence of operations. -/
+theorem stable_monotone_run {C : Cfg} {s s' : St} (h : Reach C s) (more : List Op) (e : runP C s more = some s') :
+    s.stable.height ≤ s'.stable.height := by
+  rcases (runP_spec C more (inv_reachable h) e).2.2.1 with ⟨_, e⟩ | e <;> omega
 
-/-- The committed (stable) blocks form ONE parent-linked chain, heights consecutive, whose top is the
-    stable block: each new stable block is a descendant of the previous one and its ancestors became
-    stable with it. -/
-theorem stable_chain (V : Verifier) (dc n g : Nat) (ops : List Op) :
-    let s := run V (init dc n g) ops
-    Linked s.committed ∧ ∃ c rest, s.committed = c :: rest ∧ c.id = s.stable.id ∧ c.height = s.stable.height :=
-  let hi := inv_reachable V dc n g ops
-  ⟨hi.linked, hi.top⟩
+/-- The committed (stable) blocks form ONE parent-linked chain, heights consecutive, from the stable
+    block down to genesis: each new stable block is a descendant of the previous one and its ancestors
+    became stable with it. -/
+theorem stable_chain {C : Cfg} {s : St} (h : Reach C s) :
+    Linked s.committed ∧ (∃ c rest, s.committed = c :: rest ∧ c.id = s.stable.id ∧ c.height = s.stable.height) ∧
+    ∃ g, s.committed.getLast? = some g ∧ g.height = 0 :=
+  let hi := inv_reachable h
+  ⟨hi.linked, hi.top, hi.bottom⟩
 
-/-- Stable blocks are never replaced: whatever happens later, the list of committed hashes only grows
-    at the top (so the block at every stable height stays the same, and the old stable block stays an
-    ancestor-or-self of the new one). -/
-theorem stable_never_replaced (V : Verifier) (dc n g : Nat) (ops more : List Op) :
-    ∃ l, ids (run V (run V (init dc n g) ops) more) = l ++ ids (run V (init dc n g) ops) :=
-  (run_spec V more (inv_reachable V dc n g ops)).2.1
+/-- Stable blocks are never replaced: whatever the next operation does (even if it panics half way),
+    the list of committed hashes only grows at the top — the block at every stable height stays the
+    same, and the old stable block stays an ancestor-or-self of the new one. -/
+theorem stable_never_replaced {C : Cfg} {s : St} (h : Reach C s) (op : Op) :
+    ∃ l, ids (step C s op).1 = l ++ ids s :=
+  (step_spec C op (inv_reachable h)).2.1.1
+
+theorem stable_never_replaced_run {C : Cfg} {s s' : St} (h : Reach C s) (more : List Op) (e : runP C s more = some s') :
+    ∃ l, ids s' = l ++ ids s :=
+  (runP_spec C more (inv_reachable h) e).2.1
 
 /-- a stable pointer that moved moved strictly up (same-height replacement is impossible). -/
-theorem stable_moves_up (V : Verifier) (dc n g : Nat) (ops : List Op) (op : Op) :
-    let s := run V (init dc n g) ops
-    (step V s op).1.stable.id ≠ s.stable.id → s.stable.height < (step V s op).1.stable.height := by
-  intro s hne
-  rcases (step_spec V op (inv_reachable V dc n g ops)).2.2 with ⟨h, _⟩ | h
-  · exact absurd h hne
-  · exact h
+theorem stable_moves_up {C : Cfg} {s : St} (h : Reach C s) (op : Op)
+    (hne : (step C s op).1.stable.id ≠ s.stable.id) : s.stable.height < (step C s op).1.stable.height := by
+  rcases (step_spec C op (inv_reachable h)).2.1.2.1 with ⟨e, _⟩ | e
+  · exact absurd e hne
+  · exact e
 
 /-- The head is the stable block or one of its descendants, in every reachable state. -/
-theorem head_descends_from_stable (V : Verifier) (dc n g : Nat) (ops : List Op) :
-    let s := run V (init dc n g) ops
+theorem head_descends_from_stable {C : Cfg} {s : St} (h : Reach C s) :
     s.headId = s.stable.id ∨ ∃ x ∈ s.tree, x.id = s.headId ∧ Desc s.tree s.stable.id x := by
-  intro s
-  have hi := inv_reachable V dc n g ops
-  rcases hi.head with h | ⟨x, hx, hxid⟩
-  · exact Or.inl h
+  have hi := inv_reachable h
+  rcases hi.head with e | ⟨x, hx, hxid⟩
+  · exact Or.inl e
   · exact Or.inr ⟨x, hx, hxid, WF.desc hi.wf x hx⟩
 
+/-- WITHOUT the "no Go panic" guard of `Reach` the previous theorem is false: 1 deputy, every height a
+    snapshot height; block 1 carries a deputy list `NewTermRecord` refuses (`snapBad`, C10's finding).
+    It becomes stable at once, `saveSnapshot` panics after `SetStableBlock` committed: the stable block
+    is 1, the head is still genesis and the tree is empty. -/
+theorem head_not_descendant_after_snapshot_panic :
+    let s := init 1 1 0 1000 0 [0]
+    let r := step cfgSigner s (.block ⟨1, 0, 1, 0, 1, ⟨some 0, 0⟩, [], [0], true⟩ true)
+    r.2 = "panic" ∧ r.1.stable.id = 1 ∧ r.1.headId = 0 ∧ r.1.tree = [] := by decide
+
 /-- every unconfirmed block descends from the stable block, and is above it. -/
-theorem tree_descends_from_stable (V : Verifier) (dc n g : Nat) (ops : List Op) :
-    let s := run V (init dc n g) ops
+theorem tree_descends_from_stable {C : Cfg} {s : St} (h : Reach C s) :
     ∀ x ∈ s.tree, Desc s.tree s.stable.id x ∧ s.stable.height < x.height := by
-  intro s x hx
-  have hi := inv_reachable V dc n g ops
+  intro x hx
+  have hi := inv_reachable h
   exact ⟨WF.desc hi.wf x hx, WF.height_gt hi.wf x hx⟩
 
 /-- `SetStableBlock(c)` removes exactly the blocks that are not proper descendants of `c`:
     the survivors are the blocks of the old tree that descend from `c`. -/
-theorem prune_exact (V : Verifier) (dc n g : Nat) (ops : List Op) (c : Blk) :
-    let s := run V (init dc n g) ops
-    c ∈ s.tree → ∀ x, x ∈ (setStable s c).tree ↔ (x ∈ s.tree ∧ x.id ≠ c.id ∧ Desc s.tree c.id x) := by
-  intro s _ x
-  have hi := inv_reachable V dc n g ops
+theorem prune_exact {C : Cfg} {s : St} (h : Reach C s) (c : Blk) (_hc : c ∈ s.tree) :
+    ∀ x, x ∈ (setStable s c).tree ↔ (x ∈ s.tree ∧ x.id ≠ c.id ∧ Desc s.tree c.id x) := by
+  intro x
+  have hi := inv_reachable h
   show x ∈ (descOf c.id s.tree).filter (fun x => x.id != c.id) ↔ _
   rw [List.mem_filter]
   constructor
@@ -468,6 +746,21 @@ theorem stable_change_is_setStable (s : St) (b : Blk) :
   · exact Or.inl e
   · exact Or.inr ⟨c, hc, hcid, by rw [e]⟩
 
+/-- a restart keeps the stable block and forgets the unconfirmed tree; the head restarts there. -/
+theorem reopen_keeps_stable {C : Cfg} {s : St} (h : Reach C s) :
+    (reopen s).1.stable.id = s.stable.id ∧ (reopen s).1.stable.height = s.stable.height ∧
+    ((reopen s).2 = "ok" → (reopen s).1.tree = [] ∧ (reopen s).1.headId = s.stable.id) := by
+  have hi := inv_reachable h
+  obtain ⟨c, rest, hcm, hcid, hch⟩ := hi.top
+  unfold reopen
+  split
+  · exact ⟨rfl, rfl, fun e => absurd e (by simp)⟩
+  · split
+    · rename_i hnil; rw [hcm] at hnil; cases hnil
+    · rename_i top rest' htop
+      have htc : top = c := by rw [hcm] at htop; cases htop; rfl
+      subst htc
+      exact ⟨hcid, hch, fun _ => ⟨rfl, hcid⟩⟩
 
 /-! ## the quorum arithmetic -/
 
@@ -503,13 +796,41 @@ theorem quorum_intersection {n : Nat} {A B : List Nat} (hn : 0 < n) (hA : A.Nodu
   have := (quorum_intersection_arith n).2 hn
   omega
 
+/-- with an unknown term (`TwoThirdDeputyCount = 0`) `IsConfirmEnough` is true for a block that nobody
+    confirmed … -/
+theorem enough_with_unknown_term (dc : Nat) (b : Blk) : isConfirmEnough dc [] b = true := by
+  unfold isConfirmEnough twoThirds; simp
+
+/-- … and what keeps such a block out is `verifySigner` alone: a block whose term the node does not
+    know is never stored (the state does not change, the result is not "ok"). -/
+theorem unknown_term_block_rejected (C : Cfg) (s : St) (b : Blk) (valid : Bool) (h : depsAt s b.height = []) :
+    (insertBlock C s b valid).1 = s ∧ (insertBlock C s b valid).2 ≠ "ok" := by
+  unfold insertBlock
+  split
+  · exact ⟨rfl, by simp⟩
+  split
+  · exact ⟨rfl, by simp⟩
+  split
+  · exact ⟨rfl, by simp⟩
+  split
+  · exact ⟨rfl, by simp⟩
+  · rename_i hsig
+    exfalso; apply hsig; right; rw [h]; simp
+
+theorem dedup_of_nodup : ∀ {l : List Nat}, l.Nodup → dedup l = l
+  | [], _ => rfl
+  | x :: xs, h => by
+    have h' := List.nodup_cons.1 h
+    simp only [dedup]
+    rw [dedup_of_nodup h'.2, if_neg h'.1]
+
 /-- counting distinct deputies: a duplicate-free signer list of deputies counts in full. -/
-theorem length_le_distinctCount {n : Nat} {b : Blk} (hnd : (signersOf b).Nodup) (hlt : ∀ d ∈ signersOf b, d < n) :
-    (signersOf b).length ≤ distinctCount n b := by
+theorem length_eq_distinctCount {deps : List Nat} {b : Blk} (hnd : (signersOf b).Nodup)
+    (hin : ∀ d ∈ signersOf b, d ∈ deps) : distinctCount deps b = (signersOf b).length := by
   unfold distinctCount
-  apply List.Nodup.length_le_of_subset hnd
+  rw [dedup_of_nodup hnd, List.filter_eq_self.2]
   intro d hd
-  exact List.mem_filter.2 ⟨List.mem_range.2 (hlt d hd), by simpa using hd⟩
+  simpa using hin d hd
 
 theorem filterMap_recover_length : ∀ {l : List Sig}, (∀ s ∈ l, ∃ d, recover s = some d) →
     (l.filterMap recover).length = l.length
@@ -519,37 +840,80 @@ theorem filterMap_recover_length : ∀ {l : List Sig}, (∀ s ∈ l, ∃ d, reco
     rw [List.filterMap_cons_some hd, List.length_cons, List.length_cons,
       filterMap_recover_length (fun x hx => h x (List.mem_cons_of_mem _ hx))]
 
+
+/-! ## the deputies of a height do not change when the node learns later terms -/
+
+def Grow (s s' : St) : Prop := Consts s s' ∧ ∃ ext, s'.terms = s.terms ++ ext
+
+theorem Grow.of_same {s s' : St} (k : Consts s s') (e : s'.terms = s.terms) : Grow s s' :=
+  ⟨k, [], by rw [e, List.append_nil]⟩
+
+theorem Grow.trans {a b c : St} (h1 : Grow a b) (h2 : Grow b c) : Grow a c := by
+  obtain ⟨k1, e1, g1⟩ := h1
+  obtain ⟨k2, e2, g2⟩ := h2
+  exact ⟨k1.trans k2, e1 ++ e2, by rw [g2, g1, List.append_assoc]⟩
+
+theorem getElem?_append_some {α : Type} {l ext : List α} {i : Nat} {x : α} (h : l[i]? = some x) :
+    (l ++ ext)[i]? = some x := by
+  have hi : i < l.length := by
+    rcases Nat.lt_or_ge i l.length with h' | h'
+    · exact h'
+    · rw [List.getElem?_eq_none h'] at h; cases h
+  rw [List.getElem?_append_left hi]; exact h
+
+theorem depsAt_congr' {s s' : St} (k : Consts s s') (e : s'.terms = s.terms) (h : Nat) :
+    depsAt s' h = depsAt s h := by
+  unfold depsAt
+  rw [k.1, k.2.1, k.2.2.1, e]
+
+theorem depsAt_grow {s s' : St} (g : Grow s s') {h d : Nat} (hd : d ∈ depsAt s h) : depsAt s' h = depsAt s h := by
+  obtain ⟨k, ext, e⟩ := g
+  unfold depsAt at hd ⊢
+  rw [k.1, k.2.1, k.2.2.1, e]
+  split at hd
+  · rename_i l hl
+    rw [getElem?_append_some hl]
+  · cases hd
+
 /-! ## what the engine guarantees about the signatures it stores
 
-  Generic part: `P n b` is any property of a stored block that the verifier `V` establishes for a
-  fresh block and keeps when confirms are appended. Then every block of the tree has it, and the block
-  the stable pointer moves to has it and passed `IsConfirmEnough`. -/
+  Generic part: `P deps b` is any property of a stored block (relative to the deputies of its term)
+  that the two tests of `Cfg` establish for a fresh block and keep when confirms are appended. Then
+  every block of the tree has it, and the block the stable pointer moves to has it, passed
+  `IsConfirmEnough`, and its term is known. -/
 
-structure VOK (V : Verifier) (P : Nat → Blk → Prop) : Prop where
-  fresh : ∀ n (b : Blk), recover b.hdr = some b.miner → b.miner < n →
-    P n { b with confirms := (V n { b with confirms := [] } b.confirms).1 }
-  append : ∀ n (b : Blk) sigs, P n b → P n (appendConfirm b (V n b sigs).1)
+structure VOK (C : Cfg) (P : List Nat → Blk → Prop) : Prop where
+  fresh : ∀ deps (b : Blk), recover b.hdr = some b.miner → b.miner ∈ deps →
+    P deps { b with confirms := (C.V deps { b with confirms := [] } b.confirms).1 }
+  append : ∀ deps (b : Blk) sigs, P deps b → P deps (appendConfirm b (C.V deps b sigs).1)
+  self : ∀ deps (b : Blk) d, P deps b → d ∈ deps → C.T b ⟨some d, 0⟩ d = false →
+    P deps { b with confirms := b.confirms ++ [⟨some d, 0⟩] }
+  mined : ∀ deps (b : Blk), recover b.hdr = some b.miner → b.miner ∈ deps → b.confirms = [] → P deps b
 
-def PInv (P : Nat → Blk → Prop) (s : St) : Prop := ∀ b ∈ s.tree, P s.n b
+/-- every stored block was signed by a deputy of its term (so that term is known), and has `P`. -/
+def PInv (P : List Nat → Blk → Prop) (s : St) : Prop :=
+  ∀ b ∈ s.tree, b.miner ∈ depsAt s b.height ∧ P (depsAt s b.height) b
 
-/-- one-step relation for the quorum part. -/
-def Trans (P : Nat → Blk → Prop) (s s' : St) : Prop :=
-  s'.n = s.n ∧ s'.dc = s.dc ∧
-  (s'.stable = s.stable ∨ (P s.n s'.stable ∧ isConfirmEnough s.dc s.n s'.stable = true))
+/-- the stable block: its term is known, it has `P` and it passed `IsConfirmEnough`. -/
+def Q (P : List Nat → Blk → Prop) (s : St) : Prop :=
+  s.stable.miner ∈ depsAt s s.stable.height ∧ P (depsAt s s.stable.height) s.stable ∧
+  isConfirmEnough s.dc (depsAt s s.stable.height) s.stable = true
 
-theorem Trans.refl (P : Nat → Blk → Prop) (s : St) : Trans P s s := ⟨rfl, rfl, Or.inl rfl⟩
+theorem pq_of_same {P : List Nat → Blk → Prop} {s s' : St} (ht : s'.tree = s.tree) (hs : s'.stable = s.stable)
+    (he : s'.terms = s.terms) (k : Consts s s') : (PInv P s → PInv P s') ∧ (Q P s → Q P s') := by
+  have hd : ∀ h, depsAt s' h = depsAt s h := depsAt_congr' k he
+  constructor
+  · intro hp b hb
+    rw [ht] at hb
+    rw [hd]; exact hp b hb
+  · intro hq
+    unfold Q
+    rw [hs, hd, k.1]; exact hq
 
 theorem blk_ext {a b : Blk} (h1 : a.id = b.id) (h2 : a.parent = b.parent) (h3 : a.height = b.height)
-    (h4 : a.miner = b.miner) (h5 : a.rank = b.rank) (h6 : a.hdr = b.hdr) (h7 : a.confirms = b.confirms) : a = b := by
+    (h4 : a.miner = b.miner) (h5 : a.rank = b.rank) (h6 : a.hdr = b.hdr) (h7 : a.confirms = b.confirms)
+    (h8 : a.nextDeps = b.nextDeps) (h9 : a.snapBad = b.snapBad) : a = b := by
   cases a; cases b; simp_all
-
-theorem appendConfirm_rank : ∀ (valid : List Sig) (b : Blk), (appendConfirm b valid).rank = b.rank
-  | [], _ => rfl
-  | s :: rest, b => by
-    simp only [appendConfirm]
-    split
-    · exact appendConfirm_rank rest b
-    · exact appendConfirm_rank rest _
 
 theorem getBlock_some {s : St} {id : Nat} {b : Blk} (h : getBlock s id = some b) :
     findBlk s.tree id = some b ∨ (findBlk s.tree id = none ∧ findBlk s.committed id = some b) := by
@@ -558,658 +922,118 @@ theorem getBlock_some {s : St} {id : Nat} {b : Blk} (h : getBlock s id = some b)
   · rename_i x hx; cases h; exact Or.inl hx
   · rename_i hx; exact Or.inr ⟨hx, h⟩
 
-theorem updateStable_trans {P : Nat → Blk → Prop} {s : St} {b : Blk} (_hi : TInv s) (hp : PInv P s)
-    (hb : ∀ c ∈ s.tree, c.id = b.id → c = b) :
-    PInv P (updateStable s b).1 ∧ Trans P s (updateStable s b).1 := by
-  rcases updateStable_cases s b with ⟨e, _⟩ | ⟨c, hc, hcid, hen, _, e⟩
-  · rw [e]; exact ⟨hp, Trans.refl P s⟩
-  · rw [e]
-    have hcb : c = b := hb c hc hcid
-    refine ⟨?_, rfl, rfl, Or.inr ⟨?_, ?_⟩⟩
+/-- `DPoVP.UpdateStable`, quorum part: unless it panics, the stored blocks keep `P` and a moved stable
+    pointer points to a block with `Q`. -/
+theorem updateStableFull_quorum {P : List Nat → Blk → Prop} (C : Cfg) {s : St} {b : Blk} (hi : TInv s)
+    (ht : TermsOK s) (hp : PInv P s) (hb : ∀ c ∈ s.tree, c.id = b.id → c = b)
+    (hnp : (updateStableFull C s b).2 ≠ .panic) :
+    PInv P (updateStableFull C s b).1 ∧
+    ((updateStableFull C s b).1.stable.id = s.stable.id ∨ Q P (updateStableFull C s b).1) ∧
+    Grow s (updateStableFull C s b).1 := by
+  rcases updateStableFull_cases C s b hi ht with ⟨e, _⟩ | ⟨c, hc, hcid, hen, _, ⟨ep, _⟩ | ⟨_, _, _, t, ⟨ext, het⟩, s3⟩⟩
+  · rw [e]; exact ⟨hp, Or.inl rfl, Grow.of_same (Consts.refl s) rfl⟩
+  · exact absurd ep hnp
+  · have hcb : c = b := hb c hc hcid
+    obtain ⟨g1, g2, g3, _, _, g6, _⟩ := s3
+    have hg : Grow s (updateStableFull C s b).1 := ⟨g6, ext, by rw [g3]; exact het⟩
+    refine ⟨?_, Or.inr ?_, hg⟩
     · intro x hx
+      rw [g1] at hx
       have hx' : x ∈ s.tree := descOf_sub _ _ x (List.mem_filter.1 hx).1
-      exact hp x hx'
-    · exact hp c hc
-    · show isConfirmEnough s.dc s.n c = true
+      obtain ⟨m, px⟩ := hp x hx'
+      rw [depsAt_grow hg m]; exact ⟨m, px⟩
+    · obtain ⟨m, pc⟩ := hp c hc
+      unfold Q
+      rw [g2]
+      show c.miner ∈ depsAt _ c.height ∧ P (depsAt _ c.height) c ∧ isConfirmEnough _ (depsAt _ c.height) c = true
+      rw [depsAt_grow hg m, g6.1]
+      refine ⟨m, pc, ?_⟩
       rw [hcb]; exact hen
 
-theorem setHead_pinv {P : Nat → Blk → Prop} {s : St} (h : Option Blk) (hp : PInv P s) : PInv P (setHead s h) := by
-  obtain ⟨e1, _, _, e4, _⟩ := setHead_fields s h
-  intro b hb
-  rw [e1] at hb; rw [e4]; exact hp b hb
-
-theorem setHead_trans (P : Nat → Blk → Prop) (s : St) (h : Option Blk) : Trans P s (setHead s h) := by
-  obtain ⟨_, e2, _, e4, e5⟩ := setHead_fields s h
-  exact ⟨e4, e5, Or.inl e2⟩
-
-theorem Trans.trans_same {P : Nat → Blk → Prop} {a b c : St} (h1 : Trans P a b) (h2 : Trans P b c)
-    (hs : b.stable = a.stable ∨ c.stable = b.stable) : Trans P a c := by
-  obtain ⟨n1, d1, m1⟩ := h1
-  obtain ⟨n2, d2, m2⟩ := h2
-  refine ⟨n2.trans n1, d2.trans d1, ?_⟩
-  rcases hs with hs | hs
-  · rcases m2 with m2 | m2
-    · exact Or.inl (m2.trans hs)
-    · rw [n1, d1] at m2; exact Or.inr m2
-  · rcases m1 with m1 | m1
-    · exact Or.inl (hs.trans m1)
-    · rw [hs]; exact Or.inr m1
-
-theorem saveNewBlock_trans {P : Nat → Blk → Prop} {s : St} (b : Blk) (hi : Inv s) (hp : PInv P s) (hb : P s.n b) :
-    PInv P (saveNewBlock s b).1 ∧ Trans P s (saveNewBlock s b).1 := by
-  unfold saveNewBlock
+theorem saveNewBlock_quorum {P : List Nat → Blk → Prop} (C : Cfg) {s : St} (b : Blk) (hi : Inv s) (hp : PInv P s)
+    (hm : b.miner ∈ depsAt s b.height) (hb : P (depsAt s b.height) b) (hnp : (saveNewBlock C s b).2 ≠ "panic") :
+    PInv P (saveNewBlock C s b).1 ∧
+    ((saveNewBlock C s b).1.stable.id = s.stable.id ∨ Q P (saveNewBlock C s b).1) := by
+  unfold saveNewBlock at hnp ⊢
   split
-  · exact ⟨hp, Trans.refl P s⟩
+  · exact ⟨hp, Or.inl rfl⟩
   · rename_i s1 hs1
+    rw [hs1] at hnp
     obtain ⟨e1, t1⟩ := setBlock_spec hi.toTInv hs1
-    have hp1 : PInv P s1 := by
-      rw [e1]; intro x hx
-      rcases List.mem_cons.1 hx with rfl | hx
-      · exact hb
-      · exact hp x hx
-    have hb1 : b ∈ s1.tree := by rw [e1]; exact List.mem_cons_self
-    have tr1 : Trans P s s1 := by rw [e1]; exact ⟨rfl, rfl, Or.inl rfl⟩
-    have st1 : s1.stable = s.stable := by rw [e1]
-    obtain ⟨hp2, tr2⟩ := updateStable_trans t1 hp1 (fun c hc hcid => WF.unique t1.wf c hc b hb1 hcid)
-    split
-    · rename_i s2 ch hus
-      have e2 : (updateStable s1 b).1 = s2 := by rw [hus]
-      rw [e2] at hp2 tr2
-      exact ⟨hp2, tr1.trans_same tr2 (Or.inl st1)⟩
-    · rename_i s2 ch hus
-      have e2 : (updateStable s1 b).1 = s2 := by rw [hus]
-      rw [e2] at hp2 tr2
-      have tr12 := tr1.trans_same tr2 (Or.inl st1)
+    have key : ∀ s1' : St, s1'.tree = s1.tree → s1'.stable = s1.stable → s1'.committed = s1.committed →
+        s1'.terms = s1.terms → Consts s1 s1' →
+        ((let r := updateStableFull C s1' b
+          if r.2 = .err then (r.1, "ErrSaveBlock")
+          else if r.2 = .panic then (r.1, "panic")
+          else match forkDecision r.1 b with
+            | none => (r.1, "panic")
+            | some h => (setHead r.1 h, "ok")).2 ≠ "panic") →
+        PInv P (let r := updateStableFull C s1' b
+                if r.2 = .err then (r.1, "ErrSaveBlock")
+                else if r.2 = .panic then (r.1, "panic")
+                else match forkDecision r.1 b with
+                  | none => (r.1, "panic")
+                  | some h => (setHead r.1 h, "ok")).1 ∧
+        ((let r := updateStableFull C s1' b
+          if r.2 = .err then (r.1, "ErrSaveBlock")
+          else if r.2 = .panic then (r.1, "panic")
+          else match forkDecision r.1 b with
+            | none => (r.1, "panic")
+            | some h => (setHead r.1 h, "ok")).1.stable.id = s.stable.id ∨
+         Q P (let r := updateStableFull C s1' b
+              if r.2 = .err then (r.1, "ErrSaveBlock")
+              else if r.2 = .panic then (r.1, "panic")
+              else match forkDecision r.1 b with
+                | none => (r.1, "panic")
+                | some h => (setHead r.1 h, "ok")).1) := by
+      intro s1' g1 g2 g3 g4 g6 hnp'
+      have t1' : TInv s1' := t1.of_same g1 g3 g2 g6.2.1
+      have tk1 : TermsOK s1' := by
+        unfold TermsOK; rw [g4, g2, g6.2.1, e1]; exact hi.terms
+      have ks : Consts s s1' := by rw [e1] at g6; exact g6
+      have hts : s1'.terms = s.terms := by rw [g4, e1]
+      have hd : ∀ h, depsAt s1' h = depsAt s h := depsAt_congr' ks hts
+      have hp1 : PInv P s1' := by
+        intro x hx
+        rw [g1, e1] at hx
+        rw [hd]
+        rcases List.mem_cons.1 hx with rfl | hx
+        · exact ⟨hm, hb⟩
+        · exact hp x hx
+      have hb1 : b ∈ s1'.tree := by rw [g1, e1]; exact List.mem_cons_self
+      have hst : s1'.stable.id = s.stable.id := by rw [g2, e1]
+      simp only at hnp' ⊢
       split
-      · exact ⟨hp2, tr12⟩
-      · rename_i h _
-        exact ⟨setHead_pinv h hp2, tr12.trans_same (setHead_trans P s2 h) (Or.inr (setHead_fields s2 h).2.1)⟩
-
-theorem insertBlock_trans {V : Verifier} {P : Nat → Blk → Prop} (hv : VOK V P) {s : St} (b : Blk) (valid : Bool)
-    (hi : Inv s) (hp : PInv P s) :
-    PInv P (insertBlock V s b valid).1 ∧ Trans P s (insertBlock V s b valid).1 := by
-  unfold insertBlock
-  split
-  · exact ⟨hp, Trans.refl P s⟩
-  split
-  · exact ⟨hp, Trans.refl P s⟩
-  split
-  · exact ⟨hp, Trans.refl P s⟩
-  split
-  · exact ⟨hp, Trans.refl P s⟩
-  rename_i hsig
-  split
-  · exact ⟨hp, Trans.refl P s⟩
-  split
-  · exact ⟨hp, Trans.refl P s⟩
-  have h1 : recover b.hdr = some b.miner := by
-    apply Classical.byContradiction; intro h; exact hsig (Or.inl h)
-  have h2 : b.miner < s.n := by
-    apply Classical.byContradiction; intro h; exact hsig (Or.inr h)
-  exact saveNewBlock_trans _ hi hp (hv.fresh s.n b h1 h2)
-
-theorem updateForkForConfirm_fields (s : St) :
-    (updateForkForConfirm s).tree = s.tree ∧ (updateForkForConfirm s).stable = s.stable ∧
-    (updateForkForConfirm s).n = s.n ∧ (updateForkForConfirm s).dc = s.dc := by
-  unfold updateForkForConfirm
-  split
-  · obtain ⟨e1, e2, _, e4, e5⟩ := setHead_fields s (some (chooseNewFork s.stable s.tree))
-    exact ⟨e1, e2, e4, e5⟩
-  · exact ⟨rfl, rfl, rfl, rfl⟩
-
-theorem afterConfirm_trans {P : Nat → Blk → Prop} {s1 : St} (nb : Blk) (height : Nat) (hi : Inv s1) (hp : PInv P s1)
-    (hb : ∀ c ∈ s1.tree, c.id = nb.id → c = nb) :
-    PInv P (afterConfirm s1 nb height).1 ∧ Trans P s1 (afterConfirm s1 nb height).1 := by
-  unfold afterConfirm
-  split
-  · obtain ⟨hp2, tr2⟩ := updateStable_trans hi.toTInv hp hb
-    split
-    · rename_i s2 ch hus
-      have e2 : (updateStable s1 nb).1 = s2 := by rw [hus]
-      rw [e2] at hp2 tr2
-      exact ⟨hp2, tr2⟩
-    · rename_i s2 ch hus
-      have e2 : (updateStable s1 nb).1 = s2 := by rw [hus]
-      rw [e2] at hp2 tr2
-      obtain ⟨f1, f2, f3, f4⟩ := updateForkForConfirm_fields s2
-      refine ⟨?_, ?_⟩
-      · intro x hx; rw [f1] at hx; rw [f3]; exact hp2 x hx
-      · exact tr2.trans_same ⟨f3, f4, Or.inl f2⟩ (Or.inr f2)
-  · exact ⟨hp, Trans.refl P s1⟩
-
-theorem saveConfirm_pinv {P : Nat → Blk → Prop} {s : St} {id : Nat} {b : Blk} (valid : List Sig) (hi : TInv s)
-    (hp : PInv P s) (hg : getBlock s id = some b) (hnb : b ∈ s.tree → P s.n (appendConfirm b valid)) :
-    PInv P (saveConfirm s b valid).1 ∧ (saveConfirm s b valid).1.n = s.n ∧ (saveConfirm s b valid).1.dc = s.dc ∧
-    (∀ c ∈ (saveConfirm s b valid).1.tree, c.id = (saveConfirm s b valid).2.id → c = (saveConfirm s b valid).2) := by
-  have hshape := appendConfirm_shape valid b
-  rcases getBlock_some hg with h1 | ⟨h1, h2⟩
-  · obtain ⟨hbm, hbid⟩ := findBlk_some h1
-    have hf : findBlk s.tree b.id = some b := by rw [hbid]; exact h1
-    unfold saveConfirm
-    simp only [hf]
-    -- every entry with the id of `b` IS `b`, so it becomes `appendConfirm b valid`
-    have key : ∀ x ∈ s.tree, x.id = (appendConfirm b valid).id → replFn (appendConfirm b valid) x = appendConfirm b valid := by
-      intro x hx hxid
-      have hxb : x = b := WF.unique hi.wf x hx b hbm (hxid.trans hshape.1)
-      unfold replFn
-      rw [if_pos hxid, hxb]
-      exact blk_ext hshape.1.symm hshape.2.1.symm hshape.2.2.1.symm hshape.2.2.2.1.symm
-        (appendConfirm_rank valid b).symm hshape.2.2.2.2.symm rfl
-    refine ⟨?_, trivial, trivial, ?_⟩
-    · intro c hc
-      have hc' : c ∈ replaceBlk s.tree (appendConfirm b valid) := hc
-      rw [replaceBlk_eq] at hc'
-      rcases List.mem_map.1 hc' with ⟨x, hx, rfl⟩
-      by_cases hxid : x.id = (appendConfirm b valid).id
-      · rw [key x hx hxid]; exact hnb hbm
-      · have : replFn (appendConfirm b valid) x = x := by unfold replFn; rw [if_neg hxid]
-        rw [this]; exact hp x hx
-    · intro c hc hcid
-      have hc' : c ∈ replaceBlk s.tree (appendConfirm b valid) := hc
-      rw [replaceBlk_eq] at hc'
-      rcases List.mem_map.1 hc' with ⟨x, hx, rfl⟩
-      have hxid : x.id = (appendConfirm b valid).id := (replaceBlk_shape _ x).1.symm.trans hcid
-      exact key x hx hxid
-  · have hbid : b.id = id := (findBlk_some h2).2
-    have hf : findBlk s.tree b.id = none := by rw [hbid]; exact h1
-    unfold saveConfirm
-    simp only [hf]
-    refine ⟨hp, trivial, trivial, ?_⟩
-    intro c hc hcid
-    exact absurd (hcid.trans hshape.1) (findBlk_none hf c hc)
-
-theorem insertConfirms_trans {V : Verifier} {P : Nat → Blk → Prop} (hv : VOK V P) {s : St} (id height : Nat)
-    (sigs : List Sig) (hi : Inv s) (hp : PInv P s) :
-    PInv P (insertConfirms V s id height sigs).1 ∧ Trans P s (insertConfirms V s id height sigs).1 := by
-  unfold insertConfirms
-  split
-  · exact ⟨hp, Trans.refl P s⟩
-  split
-  · exact ⟨hp, Trans.refl P s⟩
-  rename_i b hg
-  split
-  · exact ⟨hp, Trans.refl P s⟩
-  split
-  · exact ⟨hp, Trans.refl P s⟩
-  simp only
-  split
-  · exact ⟨hp, Trans.refl P s⟩
-  obtain ⟨hp1, n1, d1, hu⟩ := saveConfirm_pinv (V s.n b sigs).1 hi.toTInv hp hg
-    (fun hbm => hv.append s.n b sigs (hp b hbm))
-  obtain ⟨i1, _⟩ := saveConfirm_inv b (V s.n b sigs).1 hi
-  obtain ⟨hp2, tr2⟩ := afterConfirm_trans (saveConfirm s b (V s.n b sigs).1).2 height i1 hp1 hu
-  have st1 := (saveConfirm_spec b (V s.n b sigs).1 hi.toTInv).2.1
-  exact ⟨hp2, Trans.trans_same ⟨n1, d1, Or.inl st1⟩ tr2 (Or.inl st1)⟩
-
-theorem step_trans {V : Verifier} {P : Nat → Blk → Prop} (hv : VOK V P) {s : St} (op : Op) (hi : Inv s) (hp : PInv P s) :
-    PInv P (step V s op).1 ∧ Trans P s (step V s op).1 := by
-  cases op with
-  | block b valid => exact insertBlock_trans hv b valid hi hp
-  | confirms id h sigs => exact insertConfirms_trans hv id h sigs hi hp
-
-theorem run_pinv {V : Verifier} {P : Nat → Blk → Prop} (hv : VOK V P) :
-    ∀ (ops : List Op) {s : St}, Inv s → PInv P s →
-      PInv P (run V s ops) ∧ (run V s ops).n = s.n ∧ (run V s ops).dc = s.dc
-  | [], _, _, hp => ⟨hp, rfl, rfl⟩
-  | op :: ops, s, hi, hp => by
-    obtain ⟨hp1, n1, d1, _⟩ := step_trans hv op hi hp
-    obtain ⟨hp2, n2, d2⟩ := run_pinv hv ops (step_spec V op hi).1 hp1
-    exact ⟨hp2, n2.trans n1, d2.trans d1⟩
-
-/-- whenever the stable pointer moves, the block it moves to has the stored-signature property `P`
-    and passed `IsConfirmEnough`. -/
-theorem stable_change_has {V : Verifier} {P : Nat → Blk → Prop} (hv : VOK V P) (dc n g : Nat) (ops : List Op) (op : Op) :
-    let s := run V (init dc n g) ops
-    (step V s op).1.stable.id ≠ s.stable.id →
-      P n (step V s op).1.stable ∧ isConfirmEnough dc n (step V s op).1.stable = true := by
-  intro s hne
-  have hi := inv_reachable V dc n g ops
-  obtain ⟨hp, hn, hd⟩ := run_pinv (P := P) hv ops (inv_init dc n g) (fun b hb => by cases hb)
-  obtain ⟨_, _, _, m⟩ := step_trans hv op hi hp
-  rcases m with m | m
-  · exact absurd (by rw [m]) hne
-  · have hn' : s.n = n := hn
-    have hd' : s.dc = dc := hd
-    rw [hn', hd'] at m
-    exact m
-
-
-/-! ## the code BEFORE /repo commit d34eb0a: signatures are distinct as BYTE STRINGS only -/
-
-/-- what `VerifyNewConfirms` (before commit d34eb0a) + `IsConfirmExist` + `appendConfirm` guaranteed for a stored block:
-    header signature and confirms are pairwise different byte strings, every confirm recovers to a
-    deputy, the header signature recovers to the miner. Nothing about distinct SIGNERS. -/
-structure SigsOK (n : Nat) (b : Blk) : Prop where
-  nodup : (b.hdr :: b.confirms).Nodup
-  deputies : ∀ s ∈ b.confirms, ∃ d, recover s = some d ∧ d < n
-  hdr : recover b.hdr = some b.miner ∧ b.miner < n
-
-def AccOK (n : Nat) (b : Blk) (valid : List Sig) : Prop :=
-  valid.Nodup ∧ ∀ s ∈ valid, (∃ d, recover s = some d ∧ d < n) ∧ isConfirmExist b s = false
-
-theorem verifyLoop_acc (n : Nat) (b : Blk) : ∀ (sigs valid : List Sig) (e : CErr),
-    AccOK n b valid → AccOK n b (verifyLoop n b sigs valid e).1
-  | [], _, _, h => h
-  | s :: rest, valid, e, h => by
-    simp only [verifyLoop]
-    split
-    · exact verifyLoop_acc n b rest valid _ h
-    · rename_i hnot
-      split
-      · exact verifyLoop_acc n b rest valid _ h
-      · rename_i d hd
+      · rename_i herr
+        rcases updateStableFull_cases C s1' b t1' tk1 with ⟨e, _⟩ | ⟨c, _, _, _, _, ⟨ep, _⟩ | ⟨ec, _⟩⟩
+        · rw [e]; exact ⟨hp1, Or.inl hst⟩
+        · rw [ep] at herr; cases herr
+        · rw [ec] at herr; cases herr
+      · rename_i herr
+        rw [if_neg herr] at hnp'
         split
-        · exact verifyLoop_acc n b rest valid _ h
-        · rename_i hdn
+        · rename_i hpan; rw [if_pos hpan] at hnp'; exact absurd rfl hnp'
+        · rename_i hpan
+          rw [if_neg hpan] at hnp'
+          obtain ⟨hp2, hq2, _⟩ := updateStableFull_quorum C t1' tk1 hp1
+            (fun c hc hcid => WF.unique t1'.wf c hc b hb1 hcid) hpan
           split
-          · exact verifyLoop_acc n b rest valid _ h
-          · rename_i hex
-            apply verifyLoop_acc n b rest (valid ++ [s]) e
-            refine ⟨List.nodup_append.2 ⟨h.1, List.nodup_cons.2 ⟨by simp, List.nodup_nil⟩, ?_⟩, ?_⟩
-            · intro a ha c hc hac
-              rw [List.mem_singleton] at hc
-              exact hnot (hc ▸ hac ▸ ha)
-            · intro x hx
-              rcases List.mem_append.1 hx with hx | hx
-              · exact h.2 x hx
-              · rw [List.mem_singleton] at hx
-                subst hx
-                exact ⟨⟨d, hd, Decidable.not_not.1 hdn⟩, by simpa using hex⟩
-
-theorem isConfirmExist_false {b : Blk} {s : Sig} (h : isConfirmExist b s = false) : b.hdr ≠ s ∧ s ∉ b.confirms := by
-  unfold isConfirmExist at h
-  simp only [Bool.or_eq_false_iff, decide_eq_false_iff_not] at h
-  exact h
-
-theorem appendConfirm_sigsOK (n : Nat) : ∀ (valid : List Sig) (b : Blk), SigsOK n b →
-    (∀ s ∈ valid, ∃ d, recover s = some d ∧ d < n) → SigsOK n (appendConfirm b valid)
-  | [], _, h, _ => h
-  | s :: rest, b, h, hv => by
-    simp only [appendConfirm]
-    have hrest : ∀ x ∈ rest, ∃ d, recover x = some d ∧ d < n := fun x hx => hv x (List.mem_cons_of_mem _ hx)
+          · rename_i hfd; rw [hfd] at hnp'; exact absurd rfl hnp'
+          · rename_i h hfd
+            obtain ⟨f1, f2, _, f4, k⟩ := setHead_fields (updateStableFull C s1' b).1 h
+            obtain ⟨pp, qq⟩ := pq_of_same (P := P) f1 f2 f4 k
+            refine ⟨pp hp2, ?_⟩
+            rcases hq2 with e | q
+            · left; rw [f2, e]; exact hst
+            · right; exact qq q
+    simp only at hnp ⊢
     split
-    · exact appendConfirm_sigsOK n rest b h hrest
-    · rename_i hex
-      obtain ⟨h1, h2⟩ := isConfirmExist_false (by simpa using hex)
-      apply appendConfirm_sigsOK n rest _ _ hrest
-      have hnd := List.nodup_cons.1 h.nodup
-      refine ⟨?_, ?_, h.hdr⟩
-      · show (b.hdr :: (b.confirms ++ [s])).Nodup
-        refine List.nodup_cons.2 ⟨?_, List.nodup_append.2 ⟨hnd.2, List.nodup_cons.2 ⟨by simp, List.nodup_nil⟩, ?_⟩⟩
-        · intro hm
-          rcases List.mem_append.1 hm with hm | hm
-          · exact hnd.1 hm
-          · rw [List.mem_singleton] at hm; exact h1 hm
-        · intro a ha c hc hac
-          rw [List.mem_singleton] at hc
-          exact h2 (hc ▸ hac ▸ ha)
-      · intro x hx
-        have hx' : x ∈ b.confirms ++ [s] := hx
-        rcases List.mem_append.1 hx' with hx' | hx'
-        · exact h.deputies x hx'
-        · rw [List.mem_singleton] at hx'; subst hx'; exact hv x List.mem_cons_self
-
-theorem accOK_nil (n : Nat) (b : Blk) : AccOK n b [] := ⟨List.nodup_nil, fun _ h => by cases h⟩
-
-theorem vok_faithful : VOK verifyNewConfirms SigsOK where
-  fresh := by
-    intro n b h1 h2
-    have hacc := verifyLoop_acc n { b with confirms := [] } b.confirms [] .none (accOK_nil n _)
-    refine ⟨?_, ?_, ⟨h1, h2⟩⟩
-    · show (b.hdr :: (verifyNewConfirms n { b with confirms := [] } b.confirms).1).Nodup
-      refine List.nodup_cons.2 ⟨?_, hacc.1⟩
-      intro hm
-      exact (isConfirmExist_false (hacc.2 _ hm).2).1 rfl
-    · intro s hs
-      exact (hacc.2 s hs).1
-  append := by
-    intro n b sigs h
-    have hacc := verifyLoop_acc n b sigs [] .none (accOK_nil n b)
-    exact appendConfirm_sigsOK n _ b h (fun s hs => (hacc.2 s hs).1)
-
-/-- REFUTATION of the full quorum statement on the model of THE CODE BEFORE /repo COMMIT d34eb0a
-    (`verifyNewConfirms`, bytes-only de-duplication), 3 deputies:
-    block 1 (miner = deputy 0, canonical header signature `⟨0,0⟩`) arrives, then ONE confirmation
-    packet holding the re-encoding `⟨0,1⟩` of the miner's own signature. The stable pointer moves to
-    block 1 although one deputy out of three signed it (need 2). Anybody can forge that packet. -/
-theorem quorum_distinct_refuted :
-    ∃ (dc n g : Nat) (ops : List Op) (op : Op),
-      let s := run verifyNewConfirms (init dc n g) ops
-      let s' := (step verifyNewConfirms s op).1
-      s'.stable.id ≠ s.stable.id ∧ distinctCount n s'.stable < twoThirds n :=
-  ⟨3, 3, 0, [.block ⟨1, 0, 1, 0, 1, ⟨some 0, 0⟩, []⟩ true], .confirms 1 1 [⟨some 0, 1⟩], by decide⟩
-
-/-- (code before commit d34eb0a) the same through a block that CARRIES the forged confirmation:
-    one operation. -/
-theorem quorum_distinct_refuted_carried :
-    let s := init 3 3 0
-    let s' := (step verifyNewConfirms s (.block ⟨1, 0, 1, 0, 1, ⟨some 0, 0⟩, [⟨some 0, 1⟩]⟩ true)).1
-    s'.stable.id = 1 ∧ distinctCount 3 s'.stable = 1 ∧ twoThirds 3 = 2 := by decide
-
-/-- (code before commit d34eb0a) a deputy other than the miner doubling its own vote (needs that
-    deputy's key: another nonce). -/
-theorem quorum_distinct_refuted_resigned :
-    let s := run verifyNewConfirms (init 4 4 0) [.block ⟨1, 0, 1, 0, 1, ⟨some 0, 0⟩, []⟩ true]
-    let s' := (step verifyNewConfirms s (.confirms 1 1 [⟨some 2, 0⟩, ⟨some 2, 7⟩])).1
-    s'.stable.id = 1 ∧ distinctCount 4 s'.stable = 2 ∧ twoThirds 4 = 3 := by decide
-
-theorem signersOf_nodup_of_inj {n : Nat} {b : Blk} (h : SigsOK n b)
-    (hinj : ∀ a ∈ b.hdr :: b.confirms, ∀ c ∈ b.hdr :: b.confirms, recover a = recover c → a = c) :
-    (signersOf b).Nodup ∧ (∀ d ∈ signersOf b, d < n) ∧ (signersOf b).length = b.confirms.length + 1 := by
-  have hall : ∀ s ∈ b.hdr :: b.confirms, ∃ d, recover s = some d ∧ d < n := by
-    intro s hs
-    rcases List.mem_cons.1 hs with rfl | hs
-    · exact ⟨b.miner, h.hdr.1, h.hdr.2⟩
-    · exact h.deputies s hs
-  -- signersOf b is the image of the signature list under `recover`
-  have himg : ∀ (l : List Sig), l.Nodup → (∀ s ∈ l, ∃ d, recover s = some d ∧ d < n) →
-      (∀ a ∈ l, ∀ c ∈ l, recover a = recover c → a = c) →
-      (l.filterMap recover).Nodup ∧ (∀ d ∈ l.filterMap recover, d < n) := by
-    intro l
-    induction l with
-    | nil => intro _ _ _; exact ⟨List.nodup_nil, fun _ hd => by cases hd⟩
-    | cons s rest ih =>
-      intro hnd hdep hi
-      obtain ⟨d, hd, hdn⟩ := hdep s List.mem_cons_self
-      have hnd' := List.nodup_cons.1 hnd
-      obtain ⟨ih1, ih2⟩ := ih hnd'.2 (fun x hx => hdep x (List.mem_cons_of_mem _ hx))
-        (fun a ha c hc => hi a (List.mem_cons_of_mem _ ha) c (List.mem_cons_of_mem _ hc))
-      rw [List.filterMap_cons_some hd]
-      refine ⟨List.nodup_cons.2 ⟨?_, ih1⟩, ?_⟩
-      · intro hm
-        rcases List.mem_filterMap.1 hm with ⟨x, hx, hxd⟩
-        have : s = x := hi s List.mem_cons_self x (List.mem_cons_of_mem _ hx) (hd.trans hxd.symm)
-        exact hnd'.1 (this ▸ hx)
-      · intro e he
-        rcases List.mem_cons.1 he with rfl | he
-        · exact hdn
-        · exact ih2 e he
-  have h0 := himg (b.hdr :: b.confirms) h.nodup hall hinj
-  have e : (b.hdr :: b.confirms).filterMap recover = signersOf b := by
-    rw [List.filterMap_cons_some h.hdr.1]; rfl
-  rw [e] at h0
-  refine ⟨h0.1, h0.2, ?_⟩
-  unfold signersOf
-  rw [List.length_cons, filterMap_recover_length (fun s hs => (h.deputies s hs).imp fun _ hd => hd.1)]
-
-theorem enough_le {dc n : Nat} {b : Blk} (hn : n ≤ dc) (h : isConfirmEnough dc n b = true) :
-    twoThirds n ≤ b.confirms.length + 1 := by
-  unfold isConfirmEnough at h
-  simp only [Bool.or_eq_true, decide_eq_true_eq] at h
-  have := twoThirds_mono hn
-  omega
-
-/-- PARTIAL theorem the code before commit d34eb0a satisfied (superseded by `quorum_distinct_fixed` for
-    the current code). Whenever the stable pointer moves to a block `b`, IF the
-    signatures stored for `b` (header + confirms) recover to pairwise different nodes — the exact
-    guard: no node, the miner included, is represented by two different byte strings — THEN at least
-    ⌈2n/3⌉ distinct deputies, miner included, signed `b`.
-    (`n ≤ dc`: a term never has more deputies than the configured maximum, `TermRecord.GetDeputies`.) -/
-theorem quorum_distinct_partial (dc n g : Nat) (hn : n ≤ dc) (ops : List Op) (op : Op) :
-    let s := run verifyNewConfirms (init dc n g) ops
-    let s' := (step verifyNewConfirms s op).1
-    s'.stable.id ≠ s.stable.id →
-    (∀ a ∈ s'.stable.hdr :: s'.stable.confirms, ∀ c ∈ s'.stable.hdr :: s'.stable.confirms, recover a = recover c → a = c) →
-    twoThirds n ≤ distinctCount n s'.stable := by
-  intro s s' hne hinj
-  obtain ⟨hs, hen⟩ := stable_change_has vok_faithful dc n g ops op hne
-  obtain ⟨h1, h2, h3⟩ := signersOf_nodup_of_inj hs hinj
-  have h4 := length_le_distinctCount h1 h2
-  have h5 := enough_le hn hen
-  exact Nat.le_trans h5 (by rw [← h3]; exact h4)
-
-/-- what held on the code before commit d34eb0a: the quorum is a quorum of distinct SIGNATURES by deputies. -/
-theorem quorum_signatures (dc n g : Nat) (hn : n ≤ dc) (ops : List Op) (op : Op) :
-    let s := run verifyNewConfirms (init dc n g) ops
-    let s' := (step verifyNewConfirms s op).1
-    s'.stable.id ≠ s.stable.id →
-    SigsOK n s'.stable ∧ twoThirds n ≤ (s'.stable.hdr :: s'.stable.confirms).length := by
-  intro s s' hne
-  obtain ⟨hs, hen⟩ := stable_change_has vok_faithful dc n g ops op hne
-  exact ⟨hs, by rw [List.length_cons]; exact enough_le hn hen⟩
-
-/-! ## the code as it is now (commit d34eb0a): de-duplicate by recovered node, the miner included -/
-
-structure NodeOK (n : Nat) (b : Blk) : Prop where
-  nodup : (signersOf b).Nodup
-  deputies : ∀ s ∈ b.confirms, ∃ d, recover s = some d ∧ d < n
-  hdr : recover b.hdr = some b.miner ∧ b.miner < n
-
-def AccF (n : Nat) (b : Blk) (valid : List Sig) : Prop :=
-  (signersOf b ++ valid.filterMap recover).Nodup ∧ ∀ s ∈ valid, ∃ d, recover s = some d ∧ d < n
-
-theorem filterMap_append_singleton {l : List Sig} {s : Sig} {d : Nat} (hd : recover s = some d) :
-    (l ++ [s]).filterMap recover = l.filterMap recover ++ [d] := by
-  rw [List.filterMap_append, List.filterMap_cons_some hd, List.filterMap_nil]
-
-theorem verifyLoopFixed_acc (n : Nat) (b : Blk) (hh : recover b.hdr = some b.miner) :
-    ∀ (sigs valid : List Sig) (e : CErr), AccF n b valid → AccF n b (verifyLoopFixed n b sigs valid e).1
-  | [], _, _, h => h
-  | s :: rest, valid, e, h => by
-    simp only [verifyLoopFixed]
-    split
-    · exact verifyLoopFixed_acc n b hh rest valid _ h
-    · split
-      · exact verifyLoopFixed_acc n b hh rest valid _ h
-      · rename_i d hd
-        split
-        · exact verifyLoopFixed_acc n b hh rest valid _ h
-        · rename_i hdn
-          split
-          · exact verifyLoopFixed_acc n b hh rest valid _ h
-          · split
-            · exact verifyLoopFixed_acc n b hh rest valid _ h
-            · rename_i hnew
-              apply verifyLoopFixed_acc n b hh rest (valid ++ [s]) e
-              have hn1 : ¬ recover b.hdr = some d := fun x => hnew (Or.inl x)
-              have hn2 : d ∉ b.confirms.filterMap recover := fun x => hnew (Or.inr (Or.inl x))
-              have hn3 : d ∉ valid.filterMap recover := fun x => hnew (Or.inr (Or.inr x))
-              refine ⟨?_, ?_⟩
-              · rw [filterMap_append_singleton hd, ← List.append_assoc]
-                refine List.nodup_append.2 ⟨h.1, List.nodup_cons.2 ⟨by simp, List.nodup_nil⟩, ?_⟩
-                intro a ha c hc hac
-                rw [List.mem_singleton] at hc
-                subst hc; subst hac
-                rcases List.mem_append.1 ha with ha | ha
-                · rcases List.mem_cons.1 ha with ha | ha
-                  · exact hn1 (by rw [hh, ha])
-                  · exact hn2 ha
-                · exact hn3 ha
-              · intro x hx
-                rcases List.mem_append.1 hx with hx | hx
-                · exact h.2 x hx
-                · rw [List.mem_singleton] at hx; subst hx; exact ⟨d, hd, Decidable.not_not.1 hdn⟩
-
-theorem appendConfirm_nodeOK (n : Nat) : ∀ (valid : List Sig) (b : Blk), NodeOK n b →
-    (signersOf b ++ valid.filterMap recover).Nodup → (∀ s ∈ valid, ∃ d, recover s = some d ∧ d < n) →
-    NodeOK n (appendConfirm b valid)
-  | [], _, h, _, _ => h
-  | s :: rest, b, h, hnd, hv => by
-    simp only [appendConfirm]
-    obtain ⟨d, hd, hdn⟩ := hv s List.mem_cons_self
-    have hrest : ∀ x ∈ rest, ∃ d, recover x = some d ∧ d < n := fun x hx => hv x (List.mem_cons_of_mem _ hx)
-    rw [List.filterMap_cons_some hd] at hnd
-    split
-    · apply appendConfirm_nodeOK n rest b h _ hrest
-      exact hnd.sublist (List.Sublist.append_left (List.sublist_cons_self _ _) _)
-    · have e1 : signersOf { b with confirms := b.confirms ++ [s] } = signersOf b ++ [d] := by
-        unfold signersOf
-        show b.miner :: (b.confirms ++ [s]).filterMap recover = _
-        rw [filterMap_append_singleton hd]; rfl
-      have hnd' : ((signersOf b ++ [d]) ++ rest.filterMap recover).Nodup := by
-        rw [List.append_assoc]; exact hnd
-      apply appendConfirm_nodeOK n rest _ _ (by rw [e1]; exact hnd') hrest
-      refine ⟨?_, ?_, h.hdr⟩
-      · rw [e1]; exact hnd'.sublist (List.sublist_append_left _ _)
-      · intro x hx
-        have hx' : x ∈ b.confirms ++ [s] := hx
-        rcases List.mem_append.1 hx' with hx' | hx'
-        · exact h.deputies x hx'
-        · rw [List.mem_singleton] at hx'; subst hx'; exact ⟨d, hd, hdn⟩
-
-theorem vok_fixed : VOK verifyNewConfirmsFixed NodeOK where
-  fresh := by
-    intro n b h1 h2
-    have h0 : AccF n { b with confirms := [] } [] := by
-      refine ⟨?_, fun _ h => by cases h⟩
-      show ([b.miner] ++ []).Nodup
-      simp
-    have hacc := verifyLoopFixed_acc n { b with confirms := [] } h1 b.confirms [] .none h0
-    refine ⟨?_, hacc.2, ⟨h1, h2⟩⟩
-    have := hacc.1
-    exact this
-  append := by
-    intro n b sigs h
-    have h0 : AccF n b [] := ⟨by rw [List.filterMap_nil, List.append_nil]; exact h.nodup, fun _ hx => by cases hx⟩
-    have hacc := verifyLoopFixed_acc n b h.hdr.1 sigs [] .none h0
-    exact appendConfirm_nodeOK n _ b h hacc.1 hacc.2
-
-/-- HEADLINE — the FULL quorum theorem, for the code as it is (`verifyNewConfirmsFixed` = validator.go
-    since commit d34eb0a: a confirmation is new only if its RECOVERED NODE is neither the miner nor the
-    signer of a confirmation already held): whenever
-    the stable pointer moves to a block, at least ⌈2n/3⌉ DISTINCT deputies, miner included, signed it —
-    for every deputy count, block tree, confirmation multiset (re-encodings and re-signings included)
-    and arrival order. -/
-theorem quorum_distinct_fixed (dc n g : Nat) (hn : n ≤ dc) (ops : List Op) (op : Op) :
-    let s := run verifyNewConfirmsFixed (init dc n g) ops
-    let s' := (step verifyNewConfirmsFixed s op).1
-    s'.stable.id ≠ s.stable.id → twoThirds n ≤ distinctCount n s'.stable := by
-  intro s s' hne
-  obtain ⟨hs, hen⟩ := stable_change_has vok_fixed dc n g ops op hne
-  have hlt : ∀ d ∈ signersOf s'.stable, d < n := by
-    intro d hd
-    rcases List.mem_cons.1 hd with rfl | hd
-    · exact hs.hdr.2
-    · rcases List.mem_filterMap.1 hd with ⟨x, hx, hxd⟩
-      obtain ⟨d', hd', hlt'⟩ := hs.deputies x hx
-      rw [hd'] at hxd; cases hxd; exact hlt'
-  have h1 := length_le_distinctCount hs.nodup hlt
-  have h3 : (signersOf s'.stable).length = s'.stable.confirms.length + 1 := by
-    unfold signersOf
-    rw [List.length_cons, filterMap_recover_length (fun s hs' => (hs.deputies s hs').imp fun _ hd => hd.1)]
-  have h5 := enough_le hn hen
-  exact Nat.le_trans h5 (by rw [← h3]; exact h1)
-
-/-- the current verifier refuses the forged packet of `quorum_distinct_refuted`. -/
-example :
-    let s := run verifyNewConfirmsFixed (init 3 3 0) [.block ⟨1, 0, 1, 0, 1, ⟨some 0, 0⟩, []⟩ true]
-    (step verifyNewConfirmsFixed s (.confirms 1 1 [⟨some 0, 1⟩])).2 = "ErrNoNewConfirm" ∧
-    (step verifyNewConfirmsFixed s (.confirms 1 1 [⟨some 0, 1⟩])).1.stable.id = 0 := by decide
-
-/-- non-vacuity of `quorum_distinct_fixed` (current code): with honest signatures the stable pointer
-    does move (2 of 3 deputies), a sibling fork is pruned and the head moves over. -/
-example :
-    let s := run verifyNewConfirmsFixed (init 3 3 0)
-      [.block ⟨1, 0, 1, 0, 5, ⟨some 0, 0⟩, []⟩ true, .block ⟨2, 0, 1, 1, 3, ⟨some 1, 0⟩, []⟩ true,
-       .block ⟨3, 1, 2, 1, 4, ⟨some 1, 0⟩, []⟩ true]
-    let s' := (step verifyNewConfirmsFixed s (.confirms 2 1 [⟨some 2, 0⟩, ⟨some 2, 1⟩])).1
-    s.headId = 3 ∧ s'.stable.id = 2 ∧ s'.headId = 2 ∧ s'.tree = [] ∧ distinctCount 3 s'.stable = 2 := by decide
-
-/-- non-vacuity: with honest signatures the stable pointer does move (2 of 3 deputies), the head
-    follows, and the guard of `quorum_distinct_partial` is satisfiable. -/
-example :
-    let s := run verifyNewConfirms (init 3 3 0) [.block ⟨1, 0, 1, 0, 1, ⟨some 0, 0⟩, []⟩ true]
-    let s' := (step verifyNewConfirms s (.confirms 1 1 [⟨some 1, 0⟩])).1
-    s'.stable.id = 1 ∧ s'.headId = 1 ∧ distinctCount 3 s'.stable = 2 := by decide
-
-/-- non-vacuity of the fork machinery: a fork is pruned when its sibling becomes stable and the head
-    moves over to the surviving branch. -/
-example :
-    let s := run verifyNewConfirms (init 3 3 0)
-      [.block ⟨1, 0, 1, 0, 5, ⟨some 0, 0⟩, []⟩ true, .block ⟨2, 0, 1, 1, 3, ⟨some 1, 0⟩, []⟩ true,
-       .block ⟨3, 1, 2, 1, 4, ⟨some 1, 0⟩, []⟩ true]
-    let s' := (step verifyNewConfirms s (.confirms 2 1 [⟨some 2, 0⟩])).1
-    s.headId = 3 ∧ s'.stable.id = 2 ∧ s'.headId = 2 ∧ s'.tree = [] := by decide
-
-
-/-! ## the one Go panic in reach (`needSwitchFork`: `% TwoThirdDeputyCount` with an empty term) never fires:
-    a block is only stored after `verifySigner` found its miner among the deputies, so `n ≥ 1`. -/
-
-theorem forkDecision_ne_none {s : St} {nb : Blk} (hn : 0 < s.n) : forkDecision s nb ≠ none := by
-  have hns : needSwitchFork s (chooseNewFork s.stable s.tree) ≠ none := by
-    unfold needSwitchFork
-    split
-    · simp only
-      split
-      · rename_i h; unfold twoThirds at h; omega
-      · simp
-    · simp
-  unfold forkDecision
-  split
-  · simp
-  split
-  · simp
-  simp only
-  split
-  · rename_i h; exact absurd h hns
-  · simp
-  · simp
-
-theorem saveNewBlock_no_panic {s : St} {b : Blk} (hi : TInv s) (hn : 0 < s.n) : (saveNewBlock s b).2 ≠ "panic" := by
-  unfold saveNewBlock
-  split
-  · simp
-  rename_i s1 hs1
-  obtain ⟨e1, _⟩ := setBlock_spec hi hs1
-  split
-  · simp
-  rename_i s2 ch hus
-  have e2 : (updateStable s1 b).1 = s2 := by rw [hus]
-  have hn2 : 0 < s2.n := by
-    rcases updateStable_cases s1 b with ⟨e, _⟩ | ⟨c, _, _, _, _, e⟩
-    · rw [← e2, e, e1]; exact hn
-    · rw [← e2, e, e1]; exact hn
-  split
-  · rename_i hfd; exact absurd hfd (forkDecision_ne_none hn2)
-  · simp
-
-theorem afterConfirm_no_panic (s1 : St) (nb : Blk) (h : Nat) : (afterConfirm s1 nb h).2 ≠ "panic" := by
-  unfold afterConfirm
-  split
-  · split <;> simp
-  · simp
-
-/-- no operation on a reachable state ends in the Go panic. -/
-theorem no_panic (V : Verifier) (dc n g : Nat) (ops : List Op) (op : Op) :
-    (step V (run V (init dc n g) ops) op).2 ≠ "panic" := by
-  have hi := inv_reachable V dc n g ops
-  generalize run V (init dc n g) ops = s at hi
-  cases op with
-  | block b valid =>
-    show (insertBlock V s b valid).2 ≠ "panic"
-    unfold insertBlock
-    split
-    · simp
-    split
-    · simp
-    split
-    · simp
-    split
-    · simp
-    rename_i hsig
-    split
-    · simp
-    split
-    · simp
-    have h2 : b.miner < s.n := by
-      apply Classical.byContradiction; intro h; exact hsig (Or.inr h)
-    exact saveNewBlock_no_panic hi.toTInv (by omega)
-  | confirms id h sigs =>
-    show (insertConfirms V s id h sigs).2 ≠ "panic"
-    unfold insertConfirms
-    split
-    · simp
-    split
-    · simp
-    split
-    · simp
-    split
-    · simp
-    simp only
-    split
-    · split
-      · simp
-      · cases (V s.n _ sigs).2 <;> simp [CErr.name]
-    · exact afterConfirm_no_panic _ _ _
+    · rename_i hmined
+      rw [if_pos hmined] at hnp
+      obtain ⟨f1, f2, f3, f4, _, _, f7⟩ := setLastSig_fields s1 b
+      exact key _ f1 f2 f3 f4 f7 hnp
+    · rename_i hmined
+      rw [if_neg hmined] at hnp
+      exact key _ rfl rfl rfl rfl (Consts.refl s1) hnp
 
 end LemoProofs.C03
